@@ -353,3 +353,1795 @@ Lemma wait_cst p : wst p <> WNone -> cst p = CBefore.
 Proof. destruct p; cbn; intros H; try reflexivity; try (exfalso; apply H; reflexivity);
   repeat match goal with c : cont |- _ => destruct c | pk : popk |- _ => destruct pk end; cbn in *; try reflexivity;
   exfalso; apply H; reflexivity. Qed.
+
+(* ------------------------------------------------------------------ one lemma per program point *)
+Section Steps.
+Variables (s : gst) (t : Z) (e : event) (s' : gst).
+Hypothesis Vt : valid_tid t.
+Hypothesis HI : Inv s.
+
+Ltac start Hpc :=
+  intros Hpc Hs; apply gstep_unfold in Hs as (p' & acts & s1 & Hts & Ha & ->); rewrite Hpc in Hts; cbn [tstep] in Hts.
+
+Ltac ba1 H :=
+  let sx := fresh "sx" in let HX := fresh "HX" in
+  apply acts_cons in H as (sx & HX & H); cbn [apply_act] in HX; bd HX; try (injection HX as <-).
+Ltac ba H := repeat ba1 H; apply acts_nil in H; try subst; try congruence.
+
+Ltac local_fin :=
+  apply (local_step s s t); [apply same_ghost_refl | apply HI | apply HI | | reflexivity | exact HI].
+
+Lemma step_A_probe f : pcs s t = A_probe f -> gstep s t e = Some s' -> Inv s'.
+Proof.
+  start Hpc. bd Hts. ret_inv Hts. ba Ha.
+  local_fin. rewrite Hpc. destruct (ea e =? 0); reflexivity.
+Qed.
+
+(* getting facts out of the invariant *)
+Definition G := proj1 HI.
+Definition T := proj2 HI.
+
+Ltac others u Ne Hpc :=
+  apply (tinv_frame (CC s) _ s); [rewrite CC_set_pc_other by exact Ne; reflexivity | ..]; sproj;
+  try (let x := fresh "x" in intros x; destruct (Z.eq_dec x t) as [->|?];
+       [rewrite CC_set_pc_same; unfold CC; rewrite Hpc; reflexivity | rewrite CC_set_pc_other by assumption; reflexivity]);
+  try rewrite !upd_other by exact Ne; try reflexivity; try tauto; try apply T.
+
+Ltac tself :=
+  constructor; rewrite ?CC_set_pc_same; cproj; unfold item0; sproj; rewrite ?upd_same;
+  try discriminate; try (intros; discriminate);
+  try (let H := fresh in intros H; exfalso; apply H; reflexivity);
+  try (let H := fresh in intros _ H; exfalso; apply H; reflexivity); auto.
+
+(* class dimensions of a re-labelled thread, pointwise *)
+Ltac dims Hpc :=
+  let x := fresh "x" in intros x; destruct (Z.eq_dec x t) as [->|?];
+  [rewrite CC_set_pc_same; unfold CC; rewrite Hpc; reflexivity | rewrite CC_set_pc_other by assumption; reflexivity].
+
+Ltac gframe Hpc :=
+  apply (ginv_frame (CC s) _ s); [dims Hpc | dims Hpc | dims Hpc | dims Hpc | dims Hpc | ..]; sproj;
+  try reflexivity; try apply G; try (intros; reflexivity).
+
+Ltac gframe_tok Hpc :=
+  apply (ginv_frame_tok (CC s) _ s); [dims Hpc | dims Hpc | dims Hpc | dims Hpc | dims Hpc | ..]; sproj;
+  try reflexivity; try apply G; try (intros; reflexivity).
+Ltac inv_cc := match goal with |- Inv ?x => change (InvP (CC x) x) end.
+Ltac gett Hpc :=
+  let Tt := fresh "Tt" in pose proof (T t) as Tt; unfold CC in Tt;
+  destruct Tt as [T1 T2 T3 T4 T5 T6 T7 T8 T9 T10 T11 T12 T13 T14 T15 T16]; rewrite Hpc in *.
+
+Lemma valid_lt : 0 < t < 1073741824.
+Proof. unfold valid_tid, OWNER_MASK, DLOCK_OWNER_MASK in Vt. lia. Qed.
+
+Lemma cur_none_if_free : holder s = None -> cur s = None.
+Proof.
+  intros Hn. destruct (cur s) as [c|] eqn:E; [|reflexivity]. destruct (g_cur _ _ G c E) as (h & H & _). congruence.
+Qed.
+
+Lemma CC_after s1 p' : pcs s1 = pcs s -> forall x, CC (set_pc s1 t p') x = if Z.eq_dec x t then cls p' else CC s x.
+Proof.
+  intros E x. destruct (Z.eq_dec x t) as [->|N]; [apply CC_set_pc_same|]. rewrite CC_set_pc_other by exact N.
+  unfold CC. rewrite E. reflexivity.
+Qed.
+
+Lemma not_holder_if_nowait : holdpc (pcs s t) = false -> wst (pcs s t) = WNone -> holder s <> Some t.
+Proof.
+  intros Hh Hw Hs. destruct (g_holder _ _ G t Hs) as [_ [X|(_ & X & _)]]; unfold CC in X; cproj_in X; congruence.
+Qed.
+
+Lemma running_not_me : incall (pcs s t) = false -> running s <> Some t.
+Proof. intros H R. pose proof (g_running _ _ G t R) as X. unfold CC in X. cproj_in X. congruence. Qed.
+
+Lemma tok_none : is_some (token s) = false -> token s = None.
+Proof. destruct (token s); [discriminate|reflexivity]. Qed.
+
+Lemma step_Idle : pcs s t = Idle -> gstep s t e = Some s' -> Inv s'.
+Proof.
+  start Hpc. gett Hpc. cproj_in T8. cproj_in T2.
+  bd Hts.
+  - (* dispatch_async_f *) ret_inv Hts. ba Ha. local_fin. rewrite Hpc. reflexivity.
+  - (* dispatch_sync_f / dispatch_barrier_sync_f *) ret_inv Hts. ba Ha. inv_cc.
+    split; [gframe Hpc; intros h Hh; rewrite upd_other; [reflexivity|]; intros ->; revert Hh; apply not_holder_if_nowait; rewrite Hpc; reflexivity|]. intros u. destruct (Z.eq_dec u t) as [->|Ne]; [tself|others u Ne Hpc].
+  - (* dispatch_async_and_wait_f *) ret_inv Hts. ba Ha. inv_cc.
+    split; [gframe Hpc; intros h Hh; rewrite upd_other; [reflexivity|]; intros ->; revert Hh; apply not_holder_if_nowait; rewrite Hpc; reflexivity|]. intros u. destruct (Z.eq_dec u t) as [->|Ne]; [tself|others u Ne Hpc].
+  - (* a worker pops the lane from the root queue *) ret_inv Hts. ba Ha. inv_cc.
+    match goal with H : (0 <? rootq s) = true |- _ => apply Z.ltb_lt in H; rename H into A end. pose proof (g_rootq _ _ G) as R.
+    assert (Tk : token s = Some None) by (destruct (token s) as [[x|]|]; [lia|reflexivity|lia]).
+    split.
+    + gframe_tok Hpc.
+      * pose proof (g_word _ _ G) as Wd. rewrite Tk in Wd. exact Wd.
+      * rewrite R, Tk. reflexivity.
+    + intros u. destruct (Z.eq_dec u t) as [->|Ne]; [tself|others u Ne Hpc].
+      * split; auto.
+      * rewrite Tk. split; intros H; [injection H as H; congruence|discriminate H].
+Qed.
+
+Lemma sg_list l tz : same_ghost s (set_list s l tz).
+Proof. constructor; reflexivity. Qed.
+
+Ltac local_list :=
+  apply (local_step s _ t); [apply sg_list | sproj | sproj | | reflexivity | exact HI].
+
+Lemma step_A_xchg : pcs s t = A_xchg -> gstep s t e = Some s' -> Inv s'.
+Proof.
+  start Hpc. bd Hts. ret_inv Hts. ba Ha. cbn [is_waiter_kind] in *. cbv iota.
+  local_list.
+  - apply Forall_app. split; [apply G|]. constructor; [|constructor]. unfold entry_ok. reflexivity.
+  - rewrite waiters_app. cbn [e_kind is_waiter_kind]. rewrite app_nil_r. apply G.
+  - rewrite Hpc. destruct (ea e =? 0); reflexivity.
+Qed.
+
+
+Lemma step_A_head x : pcs s t = A_head x -> gstep s t e = Some s' -> Inv s'.
+Proof.
+  start Hpc. bd Hts. ret_inv Hts. ba Ha.
+  local_list; [apply entry_ok_link; apply G | rewrite waiters_link; apply G | rewrite Hpc; reflexivity].
+Qed.
+
+Lemma step_A_link x : pcs s t = A_link x -> gstep s t e = Some s' -> Inv s'.
+Proof.
+  start Hpc. bd Hts; ret_inv Hts; ba Ha;
+  (local_list; [apply entry_ok_link; apply G | rewrite waiters_link; apply G | rewrite Hpc; reflexivity]).
+Qed.
+
+Lemma step_A_wload f : pcs s t = A_wload f -> gstep s t e = Some s' -> Inv s'.
+Proof.
+  start Hpc. bd Hts. ret_inv Hts. ba Ha. local_fin. rewrite Hpc. reflexivity.
+Qed.
+
+Lemma step_A_ret : pcs s t = A_ret -> gstep s t e = Some s' -> Inv s'.
+Proof.
+  start Hpc. bd Hts. ret_inv Hts. ba Ha. local_fin. rewrite Hpc. reflexivity.
+Qed.
+
+
+Lemma step_A_wbody f old : pcs s t = A_wbody f old -> gstep s t e = Some s' -> Inv s'.
+Proof.
+  start Hpc. gett Hpc. cproj_in T2. bd Hts.
+  - (* compare-exchange *) ret_inv Hts. apply andb_true_iff in C as [C Cx].
+    apply ex_commit_elim in Cx as (q & x & Hq & Hb).
+    ba Ha.
+    + (* success *) match goal with H : (st s =? old) = true |- _ => apply Z.eqb_eq in H; symmetry in H; subst old end. inv_cc.
+      pose proof (g_word _ _ G) as Wd. pose proof (t_wakeup _ _ _ _ _ _ _ Wd Hq Hb) as Wn.
+      pose proof (wordinv_changed_enq _ _ _ _ _ _ Wd Wn) as Ch. pose proof (wordinv_enq_bit _ _ _ Wn) as Eb.
+      destruct (changed (st s) (eb e) ENQ) eqn:Chg.
+      * (* this wakeup set ENQUEUED *)
+        assert (Hn : holder s = None /\ is_some (token s) = false).
+        { destruct (holder s); [destruct (is_some (token s)); discriminate Ch|]. destruct (is_some (token s)); [discriminate Ch|auto]. }
+        destruct Hn as [Hn Tk]. rewrite Hn, Tk in *. apply tok_none in Tk. rewrite Eb.
+        split.
+        -- gframe_tok Hpc. rewrite Hn. exact Wn. rewrite (g_rootq _ _ G), Tk. reflexivity.
+        -- intros u. destruct (Z.eq_dec u t) as [->|Ne]; [tself|others u Ne Hpc].
+           ++ split; auto.
+           ++ rewrite Tk. split; intros H; [injection H as H; congruence|discriminate H].
+      * (* it did not *)
+        assert (Tk : is_some (token s) = match holder s with None => true | Some _ => is_some (token s) end).
+        { destruct (holder s); [reflexivity|]. destruct (is_some (token s)); [reflexivity|discriminate Ch]. }
+        rewrite <- Tk in Wn.
+        split.
+        -- gframe_tok Hpc. exact Wn.
+        -- intros u. destruct (Z.eq_dec u t) as [->|Ne]; [tself|others u Ne Hpc].
+    + (* failure *) local_fin. rewrite Hpc. reflexivity.
+  - (* the loop gave up: return *) ret_inv Hts. ba Ha. local_fin. rewrite Hpc. reflexivity.
+Qed.
+
+(* pushing the lane on the root queue: the token goes from the thread to the root queue *)
+Lemma rootpush_step p' :
+  tokpc (pcs s t) = true -> cls p' = {| c_hold := holdpc (pcs s t); c_tok := false; c_wst := wst (pcs s t); c_cst := cst p';
+     c_incall := false; c_sig := None; c_wake := None; c_run := None; c_cur := false; c_dbw := false; c_sleep := false;
+     c_wf := true |} ->
+  holdpc (pcs s t) = false -> incall (pcs s t) = false -> sigof (pcs s t) = None -> wakeof (pcs s t) = None ->
+  runof (pcs s t) = None -> curpc (pcs s t) = false -> dbwpc (pcs s t) = false ->
+  (forall u, u <> t -> tinv (CC s) s u) ->
+  tinv (CC (set_pc (set_token (set_rootq s (rootq s + 1)) (Some None)) t p'))
+       (set_pc (set_token (set_rootq s (rootq s + 1)) (Some None)) t p') t ->
+  Inv (set_pc (set_token (set_rootq s (rootq s + 1)) (Some None)) t p').
+Proof.
+  intros Htk Hc Hh Hi Hsg Hwk Hr Hcu Hd _ Ht. inv_cc.
+  pose proof (T t) as Tt. destruct Tt as [_ T2 _ _ _ _ _ _ _ _ _ _ _ _ _ _]. unfold CC in T2. cproj_in T2.
+  assert (Tk : token s = Some (Some t)) by (apply T2; exact Htk).
+  assert (D : forall x, CC (set_pc (set_token (set_rootq s (rootq s + 1)) (Some None)) t p') x =
+              if Z.eq_dec x t then cls p' else CC s x).
+  { intros x. destruct (Z.eq_dec x t) as [->|N]; [apply CC_set_pc_same|rewrite CC_set_pc_other by exact N; reflexivity]. }
+  split.
+  - apply (ginv_frame_tok (CC s) _ s); try (intros x; rewrite D; destruct (Z.eq_dec x t) as [->|N]; [rewrite Hc; unfold CC; cproj; auto|reflexivity]);
+      sproj; try reflexivity; try apply G.
+    + pose proof (g_word _ _ G) as Wd. rewrite Tk in Wd. exact Wd.
+    + rewrite (g_rootq _ _ G), Tk. reflexivity.
+  - intros u. destruct (Z.eq_dec u t) as [->|Ne]; [exact Ht|].
+    apply (tinv_frame (CC s) _ s); [rewrite D; destruct (Z.eq_dec u t); [contradiction|reflexivity] | ..]; sproj;
+      try (intros x; rewrite D; destruct (Z.eq_dec x t) as [->|N]; [rewrite Hc; unfold CC; cproj; auto|reflexivity]);
+      try reflexivity; try tauto; try apply T.
+    rewrite Tk. split; intros H; [discriminate H|injection H as H; congruence].
+Qed.
+
+Lemma step_A_root : pcs s t = A_root -> gstep s t e = Some s' -> Inv s'.
+Proof.
+  start Hpc. gett Hpc. bd Hts. ret_inv Hts. ba Ha.
+  apply rootpush_step; rewrite ?Hpc; try reflexivity; [intros; apply T|].
+  cproj_in T8. tself. split; [discriminate|]. intros H. discriminate H.
+Qed.
+
+Lemma step_S_aaw : pcs s t = S_aaw -> gstep s t e = Some s' -> Inv s'.
+Proof. start Hpc. bd Hts. ret_inv Hts. ba Ha. local_fin. rewrite Hpc. reflexivity. Qed.
+
+Lemma step_S_fload k : pcs s t = S_fload k -> gstep s t e = Some s' -> Inv s'.
+Proof.
+  start Hpc. bd Hts. ret_inv Hts. ba Ha. local_fin. rewrite Hpc. unfold after_fload. destruct (b_fast t (ea e)); reflexivity.
+Qed.
+
+
+
+(* the D frame used by the lock-moving steps: classes of everybody after the step *)
+
+
+
+(* t acquires the free drain lock: new word, new program point p' *)
+Lemma acquire_step new p' :
+  holder s = None -> wordinv new (Some t) (is_some (token s)) ->
+  holdpc p' = true -> incall (pcs s t) = false -> sigof p' = sigof (pcs s t) -> wakeof p' = wakeof (pcs s t) ->
+  runof p' = runof (pcs s t) ->
+  tinv (CC (set_pc (set_holder (set_st s new) (Some t)) t p')) (set_pc (set_holder (set_st s new) (Some t)) t p') t ->
+  Inv (set_pc (set_holder (set_st s new) (Some t)) t p').
+Proof.
+  intros Hn Wn Hh Hi Hsg Hwk Hr Ht. pose proof (cur_none_if_free Hn) as Cn. inv_cc.
+  pose proof (CC_after (set_holder (set_st s new) (Some t)) p' eq_refl) as D.
+  split.
+  - constructor; sproj; try apply G.
+    + exact Wn.
+    + intros h Hh'. injection Hh' as <-. split; [exact Vt|]. left. rewrite CC_set_pc_same. exact Hh.
+    + intros x Hx. pose proof (g_running _ _ G x Hx) as R. rewrite D. destruct (Z.eq_dec x t) as [->|]; [|exact R].
+      exfalso. apply (running_not_me Hi). exact Hx.
+    + intros c Hc. congruence.
+  - intros u. destruct (Z.eq_dec u t) as [->|Ne]; [exact Ht|].
+    apply (tinv_acquire (CC s) _ s _ u) with (t := t); sproj; auto;
+      try (intros y; rewrite D; destruct (Z.eq_dec y t) as [->|]; [unfold CC; cproj; auto|reflexivity]);
+      try reflexivity; try tauto; try apply T.
+    rewrite D. destruct (Z.eq_dec u t); [contradiction|reflexivity].
+Qed.
+
+Lemma step_S_fbody k old : pcs s t = S_fbody k old -> gstep s t e = Some s' -> Inv s'.
+Proof.
+  start Hpc. gett Hpc. destruct (b_fast t old) as [new xr| | |] eqn:Hb; try discriminate Hts. bd Hts. ret_inv Hts.
+  ba Ha.
+  - (* acquired *)
+    match goal with H : (st s =? old) = true |- _ => apply Z.eqb_eq in H; symmetry in H; subst old end.
+    match goal with H : _ && (eb e =? new) = true |- _ => apply andb_true_iff in H as [_ H]; apply Z.eqb_eq in H; rewrite H in * end.
+    pose proof (g_word _ _ G) as Wd. destruct (t_fast _ _ _ _ _ _ Wd valid_lt Hb) as (Hn & Tk & Wn).
+    pose proof (wordinv_changed_enq _ _ _ _ _ _ Wd Wn) as Ch. rewrite Tk in Ch. cbn in Ch. rewrite Ch. clear Ch.
+    apply acquire_step; rewrite ?Hpc, ?Tk; auto; try (destruct k; reflexivity).
+    destruct k; tself.
+  - (* lost the race (or spurious failure) *)
+    local_fin. rewrite Hpc. unfold after_fload. destruct (b_fast t (ea e)); reflexivity.
+Qed.
+
+Lemma step_S_wprep k : pcs s t = S_wprep k -> gstep s t e = Some s' -> Inv s'.
+Proof.
+  start Hpc. gett Hpc. cproj_in T8. bd Hts. ret_inv Hts. ba Ha. inv_cc.
+  split; [gframe Hpc|]. intros u. destruct (Z.eq_dec u t) as [->|Ne]; [tself|others u Ne Hpc].
+  destruct (T8 eq_refl) as (A & B & D). auto.
+Qed.
+
+
+Lemma step_S_xchg k : pcs s t = S_xchg k -> gstep s t e = Some s' -> Inv s'.
+Proof.
+  start Hpc. gett Hpc. cproj_in T8. destruct (T8 eq_refl) as (Pn & Ev0 & Sl0). cproj_in T13. specialize (T13 eq_refl eq_refl).
+  bd Hts. ret_inv Hts. ba Ha.
+  assert (W : is_waiter_kind (kind_ik k) = true) by (destruct k; reflexivity). rewrite W. cbv iota.
+  set (p' := if ea e =? 0 then S_head k (eb e) else S_link k (eb e)).
+  assert (Hp' : cls p' = cls (S_head k 0)) by (subst p'; destruct (ea e =? 0); reflexivity).
+  assert (NH : holder s <> Some t) by (apply not_holder_if_nowait; rewrite Hpc; reflexivity).
+  assert (NW : ~ In t (waiters (lst s))).
+  { intros I. pose proof (in_waiters s _ _ (g_list _ _ G) I). congruence. }
+  inv_cc.
+  match goal with |- InvP (CC ?S1) _ => pose proof (CC_after (set_ph (set_list s (lst s ++ [{| e_id := eb e; e_linked := false; e_kind := kind_ik k; e_own := t |}]) (tailz s)) (upd (ph s) t PhQueued)) p' eq_refl) as D end.
+  split.
+  - constructor; sproj; try apply G.
+    + intros h Hh. destruct (g_holder _ _ G h Hh) as [V X]. split; [exact V|].
+      assert (h <> t) by congruence. rewrite D. destruct (Z.eq_dec h t); [contradiction|]. rewrite upd_other by assumption. exact X.
+    + intros x Hx. pose proof (g_running _ _ G x Hx) as R. rewrite D. destruct (Z.eq_dec x t) as [->|]; [|exact R].
+      unfold CC in R. rewrite Hpc in R. discriminate R.
+    + intros c Hc. destruct (g_cur _ _ G c Hc) as (h & H1 & H2 & H3). exists h. assert (h <> t) by congruence.
+      unfold cur_ok in *. rewrite !D. destruct (Z.eq_dec h t); [contradiction|]. split; [exact H1|]. split; [exact H2|].
+      sproj. unfold CC. destruct H3 as [H3 H4]. split; [exact H3|].
+      destruct (is_waiter_kind (e_kind c)); [|exact H4]. destruct H4 as [V P]. split; [exact V|].
+      destruct (Z.eq_dec (e_own c) t) as [Eo|No]; [rewrite Eo in P; rewrite Pn in P; match type of P with _ = (if ?c then _ else _) => destruct c end; discriminate P|].
+      rewrite upd_other by exact No. exact P.
+    + apply Forall_app. split.
+      * pose proof (g_list _ _ G) as L. rewrite Forall_forall in *. intros x Hx. specialize (L x Hx). unfold entry_ok in *. sproj.
+        destruct (is_waiter_kind (e_kind x)); [|exact L]. destruct L as [V P]. split; [exact V|].
+        destruct (Z.eq_dec (e_own x) t) as [Eo|No]; [rewrite Eo in P; congruence|]. rewrite upd_other by exact No. exact P.
+      * constructor; [|constructor]. unfold entry_ok. sproj. cbn [e_kind e_own]. rewrite W. rewrite upd_same. auto.
+    + rewrite waiters_app. cbn [e_kind e_own]. rewrite W. apply nodup_snoc; [apply G|exact NW].
+  - intros u. destruct (Z.eq_dec u t) as [->|Ne].
+    + constructor; rewrite ?CC_set_pc_same, ?Hp'; cproj; unfold item0, waitinv; sproj; rewrite ?upd_same;
+        try discriminate; try (intros; discriminate); auto.
+    + apply (tinv_frame_pht (CC s) _ s _ t u); sproj; auto;
+        try (intros y; rewrite D; destruct (Z.eq_dec y t) as [->|]; [rewrite Hp'; unfold CC; rewrite Hpc; reflexivity|reflexivity]);
+        try (intros; rewrite Pn; discriminate); try apply T.
+      * rewrite D. destruct (Z.eq_dec u t); [contradiction|reflexivity].
+      * intros y Ny. rewrite upd_other by exact Ny. reflexivity.
+Qed.
+
+Ltac publish_fin Hpc :=
+  local_list; [apply entry_ok_link; apply G | rewrite waiters_link; apply G | rewrite Hpc].
+
+Lemma step_S_head k x : pcs s t = S_head k x -> gstep s t e = Some s' -> Inv s'.
+Proof. start Hpc. bd Hts. ret_inv Hts. ba Ha. publish_fin Hpc. destruct k; reflexivity. Qed.
+Lemma step_S_link k x : pcs s t = S_link k x -> gstep s t e = Some s' -> Inv s'.
+Proof. start Hpc. bd Hts. ret_inv Hts. ba Ha. publish_fin Hpc. reflexivity. Qed.
+Lemma step_S_sw : pcs s t = S_sw -> gstep s t e = Some s' -> Inv s'.
+Proof. start Hpc. bd Hts. ret_inv Hts. ba Ha. local_fin. rewrite Hpc. reflexivity. Qed.
+Lemma step_S_pwload k : pcs s t = S_pwload k -> gstep s t e = Some s' -> Inv s'.
+Proof. start Hpc. bd Hts. ret_inv Hts. ba Ha. local_fin. rewrite Hpc. reflexivity. Qed.
+Lemma step_S_fake f : pcs s t = S_fake f -> gstep s t e = Some s' -> Inv s'.
+Proof. start Hpc. bd Hts. ret_inv Hts. ba Ha. local_fin. rewrite Hpc. reflexivity. Qed.
+Lemma step_S_tail : pcs s t = S_tail -> gstep s t e = Some s' -> Inv s'.
+Proof. start Hpc. bd Hts; ret_inv Hts; ba Ha; local_fin; rewrite Hpc; reflexivity. Qed.
+Lemma step_S_uload : pcs s t = S_uload -> gstep s t e = Some s' -> Inv s'.
+Proof.
+  start Hpc. bd Hts. ret_inv Hts. ba Ha. local_fin. rewrite Hpc. unfold after_uload. destruct (b_unlock (ea e)); reflexivity.
+Qed.
+Lemma step_B_tail c : pcs s t = B_tail c -> gstep s t e = Some s' -> Inv s'.
+Proof. start Hpc. gett Hpc. cproj_in T3. bd Hts; ret_inv Hts; ba Ha; local_fin; rewrite Hpc; cproj; try reflexivity. 
+  destruct c; try discriminate T3; reflexivity. Qed.
+Lemma step_B_susp c : pcs s t = B_susp c -> gstep s t e = Some s' -> Inv s'.
+Proof. start Hpc. bd Hts. ret_inv Hts. ba Ha. local_fin. rewrite Hpc. reflexivity. Qed.
+Lemma step_B_head c : pcs s t = B_head c -> gstep s t e = Some s' -> Inv s'.
+Proof. start Hpc. bd Hts. ret_inv Hts. ba Ha. local_fin. rewrite Hpc. destruct (ea e =? 0); reflexivity. Qed.
+Lemma step_C_load c enq : pcs s t = C_load c enq -> gstep s t e = Some s' -> Inv s'.
+Proof.
+  start Hpc. gett Hpc. cproj_in T3. bd Hts. ret_inv Hts. ba Ha. local_fin. rewrite Hpc. unfold after_cload.
+  pose proof T3 as T3a. apply andb_true_iff in T3a as [T3a _].
+  destruct (b_cbc enq (ea e) 0); unfold cls; cproj; rewrite ?T3, ?T3a; reflexivity.
+Qed.
+Lemma step_P_store pk : pcs s t = P_store pk -> gstep s t e = Some s' -> Inv s'.
+Proof.
+  start Hpc. gett Hpc. cproj_in T3. bd Hts. ret_inv Hts. ba Ha. local_fin. rewrite Hpc. destruct pk as [c enq|o]; cproj; try reflexivity.
+Qed.
+Lemma step_D_load c enq : pcs s t = D_load c enq -> gstep s t e = Some s' -> Inv s'.
+Proof. start Hpc. bd Hts. ret_inv Hts. ba Ha. local_fin. rewrite Hpc. reflexivity. Qed.
+Lemma step_W_tail o : pcs s t = W_tail o -> gstep s t e = Some s' -> Inv s'.
+Proof. start Hpc. bd Hts; ret_inv Hts; ba Ha; local_fin; rewrite Hpc; reflexivity. Qed.
+Lemma step_W_head o : pcs s t = W_head o -> gstep s t e = Some s' -> Inv s'.
+Proof. start Hpc. bd Hts. ret_inv Hts. ba Ha. local_fin. rewrite Hpc. destruct (ea e =? 0); reflexivity. Qed.
+Lemma step_W_state o : pcs s t = W_state o -> gstep s t e = Some s' -> Inv s'.
+Proof. start Hpc. bd Hts. ret_inv Hts. ba Ha. local_fin. rewrite Hpc. reflexivity. Qed.
+Lemma step_W_uload o : pcs s t = W_uload o -> gstep s t e = Some s' -> Inv s'.
+Proof.
+  start Hpc. bd Hts. ret_inv Hts. ba Ha. local_fin. rewrite Hpc. unfold after_wuload. destruct (b_dunlock o (ea e)); reflexivity.
+Qed.
+Lemma step_P_cas pk : pcs s t = P_cas pk -> gstep s t e = Some s' -> Inv s'.
+Proof.
+  start Hpc. gett Hpc. cproj_in T3. bd Hts. ret_inv Hts. ba Ha.
+  local_list; [apply G | apply G | rewrite Hpc].
+  destruct (eok e =? 1); destruct pk as [c enq|o]; cproj; try reflexivity.
+Qed.
+
+(* a successful CAS on dq_state that moves neither the lock nor the token *)
+Lemma word_step new p' :
+  wordinv new (holder s) (is_some (token s)) -> cls p' = cls (pcs s t) ->
+  Inv (set_pc (set_st s new) t p').
+Proof.
+  intros Wn Ec. inv_cc. pose proof (CC_after (set_st s new) p' eq_refl) as D.
+  assert (E : forall x, CC (set_pc (set_st s new) t p') x = CC s x).
+  { intros x. rewrite D. destruct (Z.eq_dec x t) as [->|]; [rewrite Ec; reflexivity|reflexivity]. }
+  apply (InvP_ext (CC s)); [exact E|]. split.
+  - destruct G as [G1 G2 G3 G4 G5 G6 G7 G8]. constructor; sproj; auto.
+  - intros u. apply (tinv_frame (CC s) (CC s) s); sproj; auto; try reflexivity; try tauto; apply T.
+Qed.
+
+Lemma step_S_pwbody k old : pcs s t = S_pwbody k old -> gstep s t e = Some s' -> Inv s'.
+Proof.
+  start Hpc. gett Hpc. pose proof (g_word _ _ G) as Wd. bd Hts;
+    match goal with H : _ && ex_commit _ _ = true |- _ => apply andb_true_iff in H as [_ H]; apply ex_commit_elim in H as (q & xr & Hq & Hb) end.
+  - (* took the drain lock *) ret_inv Hts. ba Ha.
+    match goal with H : (st s =? old) = true |- _ => apply Z.eqb_eq in H; symmetry in H; subst old end.
+    pose proof (t_pushw _ _ _ _ _ _ _ Wd valid_lt Hq Hb) as Wn.
+    destruct (holder s) as [h|] eqn:Hh.
+    + exfalso. pose proof (wordinv_changed_inb _ _ _ _ _ _ Wd Wn) as Ch. cbn in Ch. congruence.
+    + pose proof (wordinv_changed_enq _ _ _ _ _ _ Wd Wn) as Ch. rewrite eqb_reflx in Ch. cbn in Ch. rewrite Ch.
+      apply acquire_step; rewrite ?Hpc; auto.
+      cproj_in T9. cproj_in T10. cproj_in T13.
+      assert (Wt : waitinv (CC s) s t) by (apply T9; discriminate).
+      pose proof (CC_after (set_holder (set_st s (eb e)) (Some t)) (B_tail (CWait k)) eq_refl) as D.
+      unfold waitinv, handed_or_done, item0 in Wt. rewrite Hh in Wt.
+      constructor; rewrite ?CC_set_pc_same; cproj; unfold item0; sproj; try discriminate; try (intros; discriminate); auto.
+      * intros _. unfold waitinv, handed_or_done, item0. sproj. destruct (ph s t) as [| |h|h|d|].
+        -- exact Wt.
+        -- exact Wt.
+        -- destruct Wt as (_ & X & _). discriminate X.
+        -- destruct Wt as (X & _). discriminate X.
+        -- destruct Wt as [A [[X _]|B]]; [discriminate X|]. split; [|right; exact B].
+           rewrite D. destruct (Z.eq_dec d t) as [->|]; [|exact A]. unfold CC in A. rewrite Hpc in A. discriminate A.
+        -- destruct Wt as [[X _]|B]; [discriminate X|]. right; exact B.
+      * intros _ _. destruct (ph s t) as [| |h|h|d|]; auto.
+        -- destruct Wt as [A [[X _]|B]]; [discriminate X|]. apply B.
+        -- destruct Wt as [[X _]|B]; [discriminate X|]. apply B.
+  - (* did not *) ret_inv Hts. ba Ha.
+    match goal with H : (st s =? old) = true |- _ => apply Z.eqb_eq in H; symmetry in H; subst old end.
+    pose proof (t_pushw _ _ _ _ _ _ _ Wd valid_lt Hq Hb) as Wn.
+    destruct (holder s) as [h|] eqn:Hh.
+    + pose proof (wordinv_changed_enq _ _ _ _ _ _ Wd Wn) as Ch. rewrite eqb_reflx in Ch. cbn in Ch. rewrite Ch.
+      apply word_step; [rewrite Hh; exact Wn|rewrite Hpc; reflexivity].
+    + exfalso. pose proof (wordinv_changed_inb _ _ _ _ _ _ Wd Wn) as Ch. cbn in Ch. congruence.
+  - (* failed *) ret_inv Hts. ba Ha. local_fin. rewrite Hpc. reflexivity.
+Qed.
+
+(* a step that changes only the thread's own event word / sleep state and its stage as a waiter *)
+Lemma own_step s1 p' :
+  st s1 = st s -> lst s1 = lst s -> rootq s1 = rootq s -> token s1 = token s -> holder s1 = holder s -> cur s1 = cur s ->
+  running s1 = running s -> overlap s1 = overlap s -> early_ret s1 = early_ret s -> (forall x, ph s1 x = ph s x) ->
+  (forall x, ist s1 x = ist s x) -> (forall x, runs s1 x = runs s x) -> (forall x, remote s1 x = remote s x) ->
+  (forall x, x <> t -> ev s1 x = ev s x) -> (forall x, x <> t -> slp s1 x = slp s x) -> pcs s1 = pcs s ->
+  holdpc p' = holdpc (pcs s t) -> incall p' = incall (pcs s t) -> sigof p' = sigof (pcs s t) ->
+  wakeof p' = wakeof (pcs s t) -> runof p' = runof (pcs s t) -> curpc p' = curpc (pcs s t) -> dbwpc p' = dbwpc (pcs s t) ->
+  wst p' <> WNone -> wst (pcs s t) <> WNone ->
+  tinv (CC (set_pc s1 t p')) (set_pc s1 t p') t ->
+  Inv (set_pc s1 t p').
+Proof.
+  intros E1 E2 E3 E4 E5 E6 E7 E8 E9 E10 E11 E12 E13 E14 E15 Ep Hh Hi Hsg Hwk Hr Hc Hd Hw' Hw Ht. inv_cc.
+  pose proof (CC_after s1 p' Ep) as D.
+  split.
+  - destruct G as [G1 G2 G3 G4 G5 G6 G7 G8]. constructor; sproj; rewrite ?E1, ?E2, ?E3, ?E4, ?E5, ?E6, ?E7, ?E8, ?E9; auto.
+    + intros h Hh'. destruct (G3 h Hh') as [V X]. split; [exact V|]. rewrite D. rewrite <- (E13 h), <- (E10 h) in X.
+      destruct (Z.eq_dec h t) as [->|]; [|exact X]. unfold CC in X. cproj. cproj_in X. rewrite Hh.
+      destruct X as [X|(X1 & X2 & X3)]; [left; exact X|right; split; [exact X1|]; split; [exact Hw'|exact X3]].
+    + intros x Hx. specialize (G4 x Hx). rewrite D. destruct (Z.eq_dec x t) as [->|]; [|exact G4].
+      unfold CC in G4. cproj. cproj_in G4. congruence.
+    + intros c Hc'. destruct (G6 c Hc') as (h & H1 & H2 & H3). exists h. split; [exact H1|].
+      unfold cur_ok in *. sproj. rewrite !D. destruct (Z.eq_dec h t) as [->|].
+      * unfold CC in H2, H3. cproj. cproj_in H2. cproj_in H3. rewrite Hc, Hd. split; [exact H2|].
+        destruct H3 as [H3 H4]. split; [exact H3|]. destruct (is_waiter_kind (e_kind c)); [|exact H4]. rewrite E10. exact H4.
+      * split; [exact H2|]. destruct H3 as [H3 H4]. split; [exact H3|]. destruct (is_waiter_kind (e_kind c)); [|exact H4].
+        rewrite E10. exact H4.
+    + rewrite Forall_forall in *. intros x Hx. specialize (G7 x Hx). unfold entry_ok in *. sproj. rewrite E10. exact G7.
+  - intros u. destruct (Z.eq_dec u t) as [->|Ne]; [exact Ht|].
+    apply (tinv_frame (CC s) _ s); sproj; auto;
+      try (intros y; rewrite D; destruct (Z.eq_dec y t) as [->|]; [unfold CC; cproj; auto|reflexivity]);
+      try tauto; try apply T.
+    + rewrite D. destruct (Z.eq_dec u t); [contradiction|reflexivity].
+    + rewrite E4. tauto.
+    + rewrite E7. tauto.
+Qed.
+
+Ltac own_fin Hpc :=
+  apply own_step; sproj; rewrite ?Hpc; try reflexivity; try discriminate;
+  try (intros; rewrite upd_other by assumption; reflexivity).
+
+Ltac wait_keep T9 :=
+  intros _; apply (waitinv_frame (CC s) _ s); sproj; auto;
+  [ .. | apply T9; discriminate].
+
+Lemma u32_m1 : u32 (0 - 1) = MAXV. Proof. reflexivity. Qed.
+Lemma u32_0 : u32 (1 - 1) = 0. Proof. reflexivity. Qed.
+
+Lemma step_S_sub k : pcs s t = S_sub k -> gstep s t e = Some s' -> Inv s'.
+Proof.
+  start Hpc. gett Hpc. cproj_in T9. cproj_in T10. destruct (T10 eq_refl) as [Ev Sl].
+  bd Hts. ret_inv Hts. ba Ha.
+  match goal with H : (ea e =? ev s t) = true |- _ => apply Z.eqb_eq in H; rename H into Ea end.
+  destruct (is_sigd (ph s t)) eqn:Sg.
+  - rewrite Ea, Ev. change (1 =? 1) with true. cbv iota. own_fin Hpc.
+    constructor; rewrite ?CC_set_pc_same; cproj; unfold item0; sproj; rewrite ?upd_same; try discriminate; try (intros; discriminate); auto.
+    + intros _. apply (waitinv_frame (CC s) _ s); sproj; auto; try (apply T9; discriminate);
+        (intros y; rewrite CC_after by reflexivity; destruct (Z.eq_dec y t) as [->|]; [unfold CC; rewrite Hpc; reflexivity|reflexivity]).
+    + intros _. split; [destruct (ph s t); try discriminate Sg; reflexivity|]. split; [reflexivity|exact Sl].
+  - rewrite Ea, Ev. change (0 =? 1) with false. cbv iota. own_fin Hpc.
+    constructor; rewrite ?CC_set_pc_same; cproj; unfold item0; sproj; rewrite ?upd_same; try discriminate; try (intros; discriminate); auto.
+    + intros _. apply (waitinv_frame (CC s) _ s); sproj; auto; try (apply T9; discriminate);
+        (intros y; rewrite CC_after by reflexivity; destruct (Z.eq_dec y t) as [->|]; [unfold CC; rewrite Hpc; reflexivity|reflexivity]).
+    + intros _. rewrite Sg. split; [reflexivity|]. intros X. contradiction.
+Qed.
+
+Ltac selfrec Hpc :=
+  constructor; rewrite ?CC_set_pc_same; cproj; unfold item0; sproj; rewrite ?upd_same; try discriminate;
+  try (intros; discriminate); try (let H := fresh in intros H; exfalso; apply H; reflexivity);
+        try (let H := fresh in intros _ H; exfalso; apply H; reflexivity); auto.
+Ltac keepwait Hpc T9 :=
+  intros _; apply (waitinv_frame (CC s) _ s); sproj; auto; try (apply T9; discriminate);
+  (let y := fresh "y" in intros y; rewrite CC_after by reflexivity; destruct (Z.eq_dec y t) as [->|];
+   [unfold CC; rewrite Hpc; reflexivity|reflexivity]).
+
+Lemma step_S_eload k : pcs s t = S_eload k -> gstep s t e = Some s' -> Inv s'.
+Proof.
+  start Hpc. gett Hpc. cproj_in T9. cproj_in T11. destruct (T11 eq_refl) as [Ev Sl].
+  bd Hts.
+  - (* value 0: signalled *) ret_inv Hts. ba Ha.
+    match goal with H : (ea e =? ev s t) = true |- _ => apply Z.eqb_eq in H; rename H into Ea end.
+    match goal with H : (ea e =? 0) = true |- _ => apply Z.eqb_eq in H; rename H into E0 end.
+    assert (Sg : ph s t = PhSigd).
+    { rewrite Ea in E0. rewrite E0 in Ev. destruct (ph s t); try reflexivity; discriminate Ev. }
+    own_fin Hpc. selfrec Hpc.
+    + keepwait Hpc T9.
+    + intros _. split; [exact Sg|]. split; [congruence|]. intros X. destruct (Sl X) as [Y _]. discriminate Y.
+  - (* still UINT32_MAX: go to sleep *) ret_inv Hts. ba Ha. local_fin. rewrite Hpc. reflexivity.
+Qed.
+
+Lemma step_S_futex k : pcs s t = S_futex k -> gstep s t e = Some s' -> Inv s'.
+Proof.
+  start Hpc. gett Hpc. cproj_in T9. cproj_in T11. destruct (T11 eq_refl) as [Ev Sl].
+  bd Hts. ret_inv Hts. ba Ha.
+  match goal with H : _ && (ea e =? MAXV) = true |- _ => apply andb_true_iff in H as [_ H]; apply Z.eqb_eq in H; rename H into Ea end.
+  own_fin Hpc. selfrec Hpc.
+  - keepwait Hpc T9.
+  - intros _. split; [exact Ev|]. rewrite Ea. intros X. split; [reflexivity|]. intros Sg. rewrite Sg in Ev. cbn [is_sigd] in Ev.
+    rewrite Ev in X. discriminate X.
+Qed.
+
+Lemma step_S_sleep k : pcs s t = S_sleep k -> gstep s t e = Some s' -> Inv s'.
+Proof.
+  start Hpc. gett Hpc. cproj_in T9. cproj_in T11. destruct (T11 eq_refl) as [Ev Sl].
+  bd Hts. ret_inv Hts. ba Ha.
+  own_fin Hpc. selfrec Hpc.
+  - keepwait Hpc T9.
+  - intros _. split; [exact Ev|]. intros X. discriminate X.
+Qed.
+
+Lemma incall_hold p : incall p = true -> holdpc p = true.
+Proof. destruct p; cbn; intros H; try discriminate H; reflexivity. Qed.
+
+Lemma running_none : holder s = Some t -> incall (pcs s t) = false -> running s = None.
+Proof.
+  intros Hh Hi. destruct (running s) as [x|] eqn:R; [|reflexivity]. exfalso.
+  pose proof (g_running _ _ G x R) as X. unfold CC in X. cproj_in X.
+  pose proof (t_hold _ _ _ (T x)) as Y. unfold CC in Y. cproj_in Y. specialize (Y (incall_hold _ X)).
+  assert (x = t) by congruence. subst x. congruence.
+Qed.
+
+(* the lock holder t starts its own item *)
+Lemma begin_self_step p' s0 :
+  holder s = Some t -> incall (pcs s t) = false -> holdpc (pcs s t) = true \/ wst (pcs s t) <> WNone ->
+  (* s0 = s up to t's own phase *)
+  st s0 = st s -> lst s0 = lst s -> rootq s0 = rootq s -> token s0 = token s -> holder s0 = holder s -> cur s0 = cur s ->
+  running s0 = running s -> overlap s0 = overlap s -> early_ret s0 = early_ret s -> (forall x, x <> t -> ph s0 x = ph s x) ->
+  (ph s0 t = ph s t \/ (ph s t = PhSigd /\ ph s0 t = PhNone)) ->
+  ist s0 = ist s -> runs s0 = runs s -> remote s0 = remote s -> ev s0 = ev s -> slp s0 = slp s -> pcs s0 = pcs s ->
+  holdpc p' = true -> incall p' = true -> sigof p' = None -> wakeof p' = None -> runof p' = None -> curpc p' = false ->
+  dbwpc p' = false -> sigof (pcs s t) = None -> wakeof (pcs s t) = None -> runof (pcs s t) = None ->
+  curpc (pcs s t) = false -> dbwpc (pcs s t) = false ->
+  let S' := set_pc (set_running (set_item s0 (upd (ist s0) t IRun) (upd (runs s0) t (runs s0 t + 1)) (remote s0)) (Some t)
+                      (overlap s0 || match running s0 with Some _ => true | None => false end)) t p' in
+  tinv (CC S') S' t -> Inv S'.
+Proof.
+  intros Hh Hi Hst E1 E2 E3 E4 E5 E6 E7 E8 E9 E10 E10t E11 E12 E13 E14 E15 Ep Hp1 Hp2 Hp3 Hp4 Hp5 Hp6 Hp7 Hq3 Hq4 Hq5 Hq6 Hq7 S' Ht.
+  pose proof (running_none Hh Hi) as Rn. subst S'. inv_cc.
+  match goal with |- InvP (CC (set_pc ?S1 _ _)) _ => pose proof (CC_after S1 p' Ep) as D end.
+  assert (NotT : forall w, (exists d, ph s w = PhSig d) \/ (exists h, ph s w = PhPopR h) \/ (exists h, ph s w = PhPopH h) \/ ph s w = PhQueued ->
+                 ph s0 w = ph s w).
+  { intros w Hw. destruct (Z.eq_dec w t) as [->|N]; [|apply E10; exact N].
+    destruct E10t as [X|[X Y]]; [exact X|]. exfalso. rewrite X in Hw.
+    destruct Hw as [[d Hd]|[[h Hd]|[[h Hd]|Hd]]]; discriminate Hd. }
+  split.
+  - destruct G as [G1 G2 G3 G4 G5 G6 G7 G8]. constructor; sproj; rewrite ?E1, ?E2, ?E3, ?E4, ?E5, ?E6, ?E7, ?E8, ?E9, ?E13; auto.
+    + intros h Hh'. assert (h = t) by congruence. subst h. split; [exact Vt|]. left. rewrite CC_set_pc_same. cproj. exact Hp1.
+    + intros x Hx. injection Hx as <-. rewrite CC_set_pc_same. cproj. exact Hp2.
+    + rewrite Rn. destruct G5 as [A B]. rewrite A. auto.
+    + intros c Hc'. destruct (G6 c Hc') as (h & H1 & H2 & H3). exfalso. assert (h = t) by congruence. subst h.
+      unfold CC in H2. cproj_in H2. congruence.
+    + rewrite Forall_forall in *. intros x Hx. specialize (G7 x Hx). unfold entry_ok in *. sproj.
+      destruct (is_waiter_kind (e_kind x)); [|exact G7]. destruct G7 as [V P]. split; [exact V|].
+      rewrite NotT; [exact P|]. right. right. right. exact P.
+  - intros u. destruct (Z.eq_dec u t) as [->|Ne]; [exact Ht|].
+    pose proof (T u) as Tu.
+    assert (Cu : CC (set_pc (set_running (set_item s0 (upd (ist s0) t IRun) (upd (runs s0) t (runs s0 t + 1)) (remote s0)) (Some t)
+                      (overlap s0 || match running s0 with Some _ => true | None => false end)) t p') u = CC s u).
+    { rewrite D. destruct (Z.eq_dec u t); [contradiction|reflexivity]. }
+    destruct Tu as [T1 T2 T3 T4 T5 T6 T7 T8 T9 T10 T11 T12 T13 T14 T15 T16].
+    constructor; rewrite ?Cu; unfold item0; sproj; rewrite ?E4, ?E5, ?E6, ?E11, ?E12, ?E13, ?E14, ?E15, ?upd_other by exact Ne;
+      rewrite ?(E10 u Ne); auto.
+    + intros H. specialize (T4 H). congruence.
+    + intros w H. rewrite NotT; [auto|]. left. exists u. auto.
+    + intros w H H0. rewrite NotT; [auto|]. right. left. exists u. auto.
+    + intros H. specialize (T9 H). unfold waitinv, handed_or_done, item0 in *. sproj.
+      rewrite ?E5, ?E6, ?E11, ?E12, ?E13, ?upd_other by exact Ne. rewrite (E10 u Ne).
+      assert (Cn : cur s = None).
+      { destruct (cur s) as [c|] eqn:Ec; [|reflexivity]. exfalso. destruct (g_cur _ _ G c Ec) as (h' & H1 & H2 & _).
+        assert (h' = t) by congruence. subst h'. unfold CC in H2. cproj_in H2. congruence. }
+      destruct (ph s u) as [| |h|h|d|]; auto.
+      * exfalso. destruct T9 as (A & B & [(I0 & c & Hc & _)|(R1 & R2)]); [congruence|].
+        assert (h = t) by congruence. subst h. unfold CC in R1. cproj_in R1. congruence.
+      * destruct T9 as [A B]. split; [|exact B]. rewrite CC_after by exact Ep. destruct (Z.eq_dec d t) as [->|]; [|exact A].
+        unfold CC in A. cproj_in A. congruence.
+    + intros H. destruct (T11 H) as [A B]. split; [exact A|]. intros Hs. destruct (B Hs) as [B1 B2]. split; [exact B1|].
+      intros Hp. destruct (B2 Hp) as [d Hd]. exists d. rewrite CC_after by exact Ep. destruct (Z.eq_dec d t) as [->|]; [|exact Hd].
+      unfold CC in Hd. cproj_in Hd. congruence.
+Qed.
+
+Lemma step_S_call k f : pcs s t = S_call k f -> gstep s t e = Some s' -> Inv s'.
+Proof.
+  start Hpc. gett Hpc. cproj_in T1. cproj_in T8. cproj_in T13. specialize (T1 eq_refl). destruct (T8 eq_refl) as (P0 & E0 & S0).
+  destruct (T13 eq_refl eq_refl) as (I1 & I2 & I3).
+  bd Hts. ret_inv Hts. ba Ha.
+  apply (begin_self_step (S_incall k f) s); rewrite ?Hpc; auto; try reflexivity.
+  selfrec Hpc. intros _. rewrite I2. auto.
+Qed.
+
+(* t leaves the woken state: its phase is reset *)
+Lemma wake_step p' s0 :
+  ph s t = PhSigd -> wst (pcs s t) <> WNone -> holdpc (pcs s t) = false -> curpc (pcs s t) = false ->
+  st s0 = st s -> lst s0 = lst s -> rootq s0 = rootq s -> token s0 = token s -> holder s0 = holder s -> cur s0 = cur s ->
+  running s0 = running s -> overlap s0 = overlap s -> early_ret s0 = early_ret s -> (forall x, x <> t -> ph s0 x = ph s x) ->
+  ist s0 = ist s -> runs s0 = runs s -> remote s0 = remote s -> ev s0 = ev s -> slp s0 = slp s -> pcs s0 = pcs s ->
+  (holder s = Some t -> holdpc p' = true) -> tokpc p' = tokpc (pcs s t) -> incall p' = incall (pcs s t) ->
+  sigof p' = None -> wakeof p' = None -> runof p' = None -> curpc p' = false -> dbwpc p' = false ->
+  sigof (pcs s t) = None -> wakeof (pcs s t) = None -> runof (pcs s t) = None -> dbwpc (pcs s t) = false ->
+  tinv (CC (set_pc s0 t p')) (set_pc s0 t p') t -> Inv (set_pc s0 t p').
+Proof.
+  intros Sg Hw Hnh Hnc E1 E2 E3 E4 E5 E6 E7 E8 E9 E10 E11 E12 E13 E14 E15 Ep Hp1 Hp0 Hp2 Hp3 Hp4 Hp5 Hp6 Hp7 Hq3 Hq4 Hq5 Hq7 Ht.
+  inv_cc. pose proof (CC_after s0 p' Ep) as D.
+  assert (NotT : forall w, (exists d, ph s w = PhSig d) \/ (exists h, ph s w = PhPopR h) \/ (exists h, ph s w = PhPopH h) \/ ph s w = PhQueued ->
+                 ph s0 w = ph s w).
+  { intros w Hw0. destruct (Z.eq_dec w t) as [->|N]; [|apply E10; exact N]. exfalso. rewrite Sg in Hw0.
+    destruct Hw0 as [[d Hd]|[[h Hd]|[[h Hd]|Hd]]]; discriminate Hd. }
+  split.
+  - destruct G as [G1 G2 G3 G4 G5 G6 G7 G8]. constructor; sproj; rewrite ?E1, ?E2, ?E3, ?E4, ?E5, ?E6, ?E7, ?E8, ?E9, ?E13; auto.
+    + intros h Hh'. destruct (G3 h Hh') as [V X]. split; [exact V|]. rewrite D. destruct (Z.eq_dec h t) as [->|N].
+      * left. cproj. auto.
+      * rewrite (E10 h N). exact X.
+    + intros x Hx. specialize (G4 x Hx). rewrite D. destruct (Z.eq_dec x t) as [->|]; [|exact G4].
+      unfold CC in G4. cproj. cproj_in G4. congruence.
+    + intros c Hc'. destruct (G6 c Hc') as (h & H1 & H2 & H3). exists h. split; [exact H1|].
+      unfold cur_ok in *. sproj. rewrite !D. destruct (Z.eq_dec h t) as [->|N].
+      * exfalso. unfold CC in H2. cproj_in H2. congruence.
+      * split; [exact H2|]. destruct H3 as [H3 H4]. split; [exact H3|]. destruct (is_waiter_kind (e_kind c)); [|exact H4].
+        destruct H4 as [V P]. split; [exact V|]. rewrite NotT; [exact P|].
+        match type of P with _ = (if ?cnd then _ else _) => destruct cnd end; [right; right; left; eauto|right; left; eauto].
+    + rewrite Forall_forall in *. intros x Hx. specialize (G7 x Hx). unfold entry_ok in *. sproj.
+      destruct (is_waiter_kind (e_kind x)); [|exact G7]. destruct G7 as [V P]. split; [exact V|].
+      rewrite NotT; [exact P|]. right. right. right. exact P.
+  - intros u. destruct (Z.eq_dec u t) as [->|Ne]; [exact Ht|].
+    apply (tinv_frame_pht (CC s) _ s _ t u); sproj; rewrite ?E4, ?E5, ?E6, ?E7, ?E11, ?E12, ?E13, ?E14, ?E15; auto;
+      try (intros y; rewrite D; destruct (Z.eq_dec y t) as [->|]; [unfold CC; cproj; congruence|reflexivity]);
+      try (intros; rewrite Sg; discriminate); try apply T.
+    rewrite D. destruct (Z.eq_dec u t); [contradiction|reflexivity].
+Qed.
+
+Lemma step_S_woken k : pcs s t = S_woken k -> gstep s t e = Some s' -> Inv s'.
+Proof.
+  start Hpc. gett Hpc. cproj_in T9. cproj_in T12. destruct (T12 eq_refl) as (Sg & E0 & S0).
+  assert (Wt : waitinv (CC s) s t) by (apply T9; discriminate). unfold waitinv in Wt. rewrite Sg in Wt.
+  destruct k.
+  - (* dispatch_sync_f: the waiter runs the item itself *)
+    bd Hts. ret_inv Hts. ba Ha.
+    match goal with H : eqb (remote s t) false = true |- _ => apply eqb_prop in H; rename H into Rm end.
+    destruct Wt as [[Hh (I1 & I2 & I3)]|(_ & _ & X)]; [|congruence].
+    apply (begin_self_step (S_incall KS false) (set_ph s (upd (ph s) t PhNone))); sproj; rewrite ?Hpc; auto; try reflexivity;
+      try (right; discriminate).
+    + intros x Nx. rewrite upd_other by exact Nx. reflexivity.
+    + right. rewrite upd_same. auto.
+    + selfrec Hpc. intros _. rewrite I2. auto.
+  - bd Hts.
+    + (* dispatch_async_and_wait_f, handed the lock *) ret_inv Hts. ba Ha.
+      match goal with H : eqb (remote s t) false = true |- _ => apply eqb_prop in H; rename H into Rm end.
+      destruct Wt as [[Hh (I1 & I2 & I3)]|(_ & _ & X)]; [|congruence].
+      apply wake_step; sproj; rewrite ?Hpc; auto; try reflexivity; try discriminate.
+      * intros x Nx. rewrite upd_other by exact Nx. reflexivity.
+      * selfrec Hpc.
+    + (* the drainer ran the item: return *) ret_inv Hts. ba Ha.
+      match goal with H : eqb (remote s t) true = true |- _ => apply eqb_prop in H; rename H into Rm end.
+      destruct Wt as [[Hh (I1 & I2 & I3)]|(I1 & I2 & I3)]; [congruence|].
+      assert (Nh : holder s <> Some t).
+      { intros Hh. destruct (g_holder _ _ G t Hh) as [_ [X|(_ & _ & X & _)]]; [unfold CC in X; rewrite Hpc in X; discriminate X|congruence]. }
+      apply wake_step; sproj; rewrite ?Hpc, ?I1; auto; try reflexivity; try discriminate; try contradiction.
+      * rewrite (proj2 (g_flags _ _ G)). reflexivity.
+      * intros x Nx. rewrite upd_other by exact Nx. reflexivity.
+      * selfrec Hpc.
+Qed.
+
+Lemma step_S_incall k f : pcs s t = S_incall k f -> gstep s t e = Some s' -> Inv s'.
+Proof.
+  start Hpc. gett Hpc. cproj_in T1. cproj_in T4. cproj_in T8. cproj_in T14. specialize (T1 eq_refl). specialize (T4 eq_refl).
+  destruct (T8 eq_refl) as (P0 & E0 & S0). destruct (T14 eq_refl) as (I1 & I2 & I3).
+  bd Hts. ret_inv Hts. ba Ha.
+  set (p' := match k, f with KS, true => S_tail | _, _ => B_tail CRet end).
+  assert (Hp' : cls p' = cls S_tail) by (subst p'; destruct k, f; reflexivity).
+  inv_cc.
+  pose proof (CC_after (set_running (set_item s (upd (ist s) t IFin) (runs s) (remote s)) None (overlap s)) p' eq_refl) as D.
+  split.
+  - destruct G as [G1 G2 G3 G4 G5 G6 G7 G8]. constructor; sproj; auto.
+    + intros h Hh. destruct (G3 h Hh) as [V X]. split; [exact V|]. rewrite D. destruct (Z.eq_dec h t) as [->|]; [|exact X].
+      left. rewrite Hp'. reflexivity.
+    + intros x Hx. discriminate Hx.
+    + intros c Hc. destruct (G6 c Hc) as (h & H1 & H2 & H3). exfalso. assert (h = t) by congruence. subst h.
+      unfold CC in H2. rewrite Hpc in H2. discriminate H2.
+  - intros u. destruct (Z.eq_dec u t) as [->|Ne].
+    + constructor; rewrite ?CC_set_pc_same, ?Hp'; cproj; unfold item0; sproj; rewrite ?upd_same; try discriminate;
+        try (intros; discriminate); try (let H := fresh in intros H; exfalso; apply H; reflexivity);
+        try (let H := fresh in intros _ H; exfalso; apply H; reflexivity); auto.
+    + apply (tinv_frame (CC s) _ s); sproj; rewrite ?upd_other by exact Ne; auto;
+        try (intros y; rewrite D; destruct (Z.eq_dec y t) as [->|]; [rewrite Hp'; unfold CC; rewrite Hpc; reflexivity|reflexivity]);
+        try tauto; try apply T.
+      * rewrite D. destruct (Z.eq_dec u t); [contradiction|reflexivity].
+      * intros X. congruence.
+Qed.
+
+Lemma step_S_ret : pcs s t = S_ret -> gstep s t e = Some s' -> Inv s'.
+Proof.
+  start Hpc. gett Hpc. cproj_in T8. cproj_in T15. destruct (T8 eq_refl) as (P0 & E0 & S0). destruct (T15 eq_refl) as (I1 & I2 & I3).
+  bd Hts. ret_inv Hts. ba Ha. rewrite I1. cbn [ist_fin negb]. rewrite orb_false_r.
+  inv_cc. split.
+  - apply (ginv_frame (CC s) _ s); [dims Hpc | dims Hpc | dims Hpc | dims Hpc | dims Hpc | ..]; sproj; try reflexivity; try apply G;
+      try (intros; reflexivity).
+  - intros u. destruct (Z.eq_dec u t) as [->|Ne]; [tself|others u Ne Hpc].
+Qed.
+
+Lemma cur_none_if_not_curpc : holder s = Some t -> curpc (pcs s t) = false -> cur s = None.
+Proof.
+  intros Hh Hc. destruct (cur s) as [c|] eqn:Ec; [|reflexivity]. exfalso. destruct (g_cur _ _ G c Ec) as (h' & H1 & H2 & _).
+  assert (h' = t) by congruence. subst h'. unfold CC in H2. cproj_in H2. congruence.
+Qed.
+
+(* the holder t gives the drain lock back *)
+Lemma release_step p' s0 :
+  holder s = Some t -> curpc (pcs s t) = false -> runof (pcs s t) = None -> incall (pcs s t) = false ->
+  sigof (pcs s t) = None -> wakeof (pcs s t) = None ->
+  wordinv (st s0) None (is_some (token s0)) -> rootq s0 = (match token s0 with Some None => 1 | _ => 0 end) ->
+  (forall u, u <> t -> (token s0 = Some (Some u) <-> token s = Some (Some u))) ->
+  lst s0 = lst s -> holder s0 = None -> cur s0 = cur s ->
+  running s0 = running s -> overlap s0 = overlap s -> early_ret s0 = early_ret s -> ph s0 = ph s ->
+  ist s0 = ist s -> runs s0 = runs s -> remote s0 = remote s -> ev s0 = ev s -> slp s0 = slp s -> pcs s0 = pcs s ->
+  incall p' = false -> sigof p' = None -> wakeof p' = None -> runof p' = None ->
+  tinv (CC (set_pc s0 t p')) (set_pc s0 t p') t -> Inv (set_pc s0 t p').
+Proof.
+  intros Hh Hc Hr Hi Hsg Hwk Wn Rq Tk E2 E5 E6 E7 E8 E9 E10 E11 E12 E13 E14 E15 Ep Hp2 Hp3 Hp4 Hp5 Ht.
+  pose proof (cur_none_if_not_curpc Hh Hc) as Cn. inv_cc. pose proof (CC_after s0 p' Ep) as D.
+  split.
+  - destruct G as [G1 G2 G3 G4 G5 G6 G7 G8]. constructor; sproj; rewrite ?E2, ?E5, ?E6, ?E7, ?E8, ?E9, ?E10; auto.
+    + intros h Hh'. discriminate Hh'.
+    + intros x Hx. specialize (G4 x Hx). rewrite D. destruct (Z.eq_dec x t) as [->|]; [|exact G4].
+      unfold CC in G4. cproj_in G4. congruence.
+    + intros c Hc'. congruence.
+    + rewrite Forall_forall in *. intros x Hx. specialize (G7 x Hx). unfold entry_ok in *. sproj. rewrite E10. exact G7.
+  - intros u. destruct (Z.eq_dec u t) as [->|Ne]; [exact Ht|].
+    apply (tinv_release (CC s) _ s _ u) with (t := t); sproj; rewrite ?E5, ?E6, ?E7, ?E10, ?E11, ?E12, ?E13, ?E14, ?E15; auto;
+      try (intros y; rewrite D; destruct (Z.eq_dec y t) as [->|]; [unfold CC; cproj; congruence|reflexivity]);
+      try apply T.
+    rewrite D. destruct (Z.eq_dec u t); [contradiction|reflexivity].
+Qed.
+
+Ltac cas_ok old :=
+  match goal with H : (st s =? old) = true |- _ => apply Z.eqb_eq in H; symmetry in H; subst old end.
+Ltac eb_is new :=
+  match goal with H : _ && (eb e =? new) = true |- _ => apply andb_true_iff in H as [_ H]; apply Z.eqb_eq in H; rewrite H in * end.
+
+Lemma step_S_ubody old : pcs s t = S_ubody old -> gstep s t e = Some s' -> Inv s'.
+Proof.
+  start Hpc. gett Hpc. cproj_in T1. specialize (T1 eq_refl). cproj_in T8. cproj_in T15.
+  destruct (T8 eq_refl) as (P0 & E0 & S0). destruct (T15 eq_refl) as (I1 & I2 & I3).
+  destruct (b_unlock old) as [new xr| | |] eqn:Hb; try discriminate Hts. bd Hts. ret_inv Hts. ba Ha.
+  - cas_ok old. eb_is new. pose proof (g_word _ _ G) as Wd. rewrite T1 in Wd.
+    destruct (t_bunlock _ _ _ _ _ Wd Hb) as [Tk Wn].
+    pose proof (wordinv_changed_enq _ _ _ _ _ _ Wd Wn) as Ch. rewrite Tk in Ch. cbn in Ch. rewrite Ch.
+    apply release_step; sproj; rewrite ?Hpc; auto; try reflexivity.
+    + rewrite Tk. exact Wn.
+    + apply (g_rootq _ _ G).
+    + selfrec Hpc.
+  - local_fin. rewrite Hpc. unfold after_uload. destruct (b_unlock (ea e)); reflexivity.
+Qed.
+
+Lemma step_C_xor c : pcs s t = C_xor c -> gstep s t e = Some s' -> Inv s'.
+Proof.
+  start Hpc. bd Hts. ret_inv Hts. ba Ha. apply word_step; [apply t_xor; apply (g_word _ _ G)|rewrite Hpc; reflexivity].
+Qed.
+Lemma step_W_xor o : pcs s t = W_xor o -> gstep s t e = Some s' -> Inv s'.
+Proof.
+  start Hpc. bd Hts. ret_inv Hts. ba Ha. apply word_step; [apply t_xor; apply (g_word _ _ G)|rewrite Hpc; reflexivity].
+Qed.
+
+Lemma step_C_root c : pcs s t = C_root c -> gstep s t e = Some s' -> Inv s'.
+Proof.
+  start Hpc. gett Hpc. cproj_in T3. bd Hts. ret_inv Hts. ba Ha.
+  destruct c as [|k| |o n]; try discriminate T3.
+  - apply rootpush_step; rewrite ?Hpc; try reflexivity; [intros; apply T|]. cproj_in T8. cproj_in T15. selfrec Hpc.
+    split; [discriminate|]. intros H. discriminate H.
+  - apply rootpush_step; rewrite ?Hpc; try reflexivity; [intros; apply T|]. cproj_in T9. cproj_in T10. selfrec Hpc.
+    + split; [discriminate|]. intros H. discriminate H.
+    + keepwait Hpc T9.
+Qed.
+
+Lemma waitinv_released s0 p' :
+  holder s = Some t -> cur s = None -> waitinv (CC s) s t ->
+  (match ph s t with PhSig _ | PhSigd => remote s t = true | _ => True end) ->
+  holder s0 = None -> cur s0 = cur s -> ph s0 = ph s -> ist s0 = ist s -> runs s0 = runs s -> remote s0 = remote s ->
+  pcs s0 = pcs s -> sigof (pcs s t) = None -> runof (pcs s t) = None ->
+  waitinv (CC (set_pc s0 t p')) (set_pc s0 t p') t.
+Proof.
+  intros Hh Cn Wt Tk E5 E6 E10 E11 E12 E13 Ep Hsg Hr. pose proof (CC_after s0 p' Ep) as D.
+  unfold waitinv, handed_or_done, item0 in *. sproj. rewrite E5, E6, E10, E11, E12, E13. rewrite Cn in *.
+  destruct (ph s t) as [| |h|h|d|]; auto.
+  - destruct Wt as (_ & _ & c & X & _). discriminate X.
+  - destruct Wt as (A & B & [(_ & c & X & _)|(R1 & _)]); [discriminate X|]. assert (h = t) by congruence. contradiction.
+  - destruct Wt as [A [[_ (_ & _ & X)]|B]]; [congruence|]. split; [|right; exact B].
+    rewrite D. destruct (Z.eq_dec d t) as [->|]; [|exact A]. unfold CC in A. cproj_in A. congruence.
+  - destruct Wt as [[_ (_ & _ & X)]|B]; [congruence|]. right. exact B.
+Qed.
+
+Lemma step_C_body c enq old : pcs s t = C_body c enq old -> gstep s t e = Some s' -> Inv s'.
+Proof.
+  start Hpc. gett Hpc. cproj_in T1. specialize (T1 eq_refl). cproj_in T2. cproj_in T3.
+  apply andb_true_iff in T3 as [Tc Te].
+  pose proof (g_word _ _ G) as Wd. rewrite T1 in Wd.
+  bd Hts. ret_inv Hts.
+  match goal with H : _ && ex_commit _ _ = true |- _ => apply andb_true_iff in H as [_ H]; apply ex_commit_elim in H as (q & xr & Hq & Hb) end.
+  ba Ha.
+  - (* released *) cas_ok old.
+    apply orb_true_iff in Te as [Te|Te]; apply Z.eqb_eq in Te; subst enq.
+    + (* nothing to enqueue *)
+      pose proof (t_cbc_none _ _ _ _ _ _ Wd Hq Hb) as Wn.
+      pose proof (wordinv_changed_enq _ _ _ _ _ _ Wd Wn) as Ch. rewrite eqb_reflx in Ch. cbn [negb] in Ch. rewrite Ch.
+      change (nz 0) with false. cbn [andb]. cbv iota.
+      apply release_step; sproj; rewrite ?Hpc; cproj; auto; try reflexivity; try (destruct c; try discriminate Tc; reflexivity).
+      * apply (g_rootq _ _ G).
+      * destruct c as [|k| |]; try discriminate Tc; cproj_in T8; cproj_in T9; cproj_in T10; cproj_in T15; cproj_in T16; selfrec Hpc.
+        intros _. apply waitinv_released; sproj; rewrite ?Hpc; auto; [apply cur_none_if_not_curpc; rewrite ?Hpc; auto|apply T9; discriminate|apply T16; auto; discriminate].
+    + (* hand the lane back to the root queue if nobody else did *)
+      pose proof (t_cbc_enq _ _ _ _ _ _ Wd Hq Hb) as Wn.
+      pose proof (wordinv_changed_enq _ _ _ _ _ _ Wd Wn) as Ch. pose proof (wordinv_enq_bit _ _ _ Wn) as Eb.
+      change (nz ENQ) with true. cbn [andb].
+      destruct (is_some (token s)) eqn:Tk; cbn in Ch; rewrite Ch; cbv iota.
+      * (* already enqueued by somebody else *)
+        apply release_step; sproj; rewrite ?Hpc, ?Tk; cproj; auto; try reflexivity; try (destruct c; try discriminate Tc; reflexivity).
+        -- apply (g_rootq _ _ G).
+        -- destruct c as [|k| |]; try discriminate Tc; cproj_in T8; cproj_in T9; cproj_in T10; cproj_in T15; cproj_in T16; selfrec Hpc.
+           intros _. apply waitinv_released; sproj; rewrite ?Hpc; auto; [apply cur_none_if_not_curpc; rewrite ?Hpc; auto|apply T9; discriminate|apply T16; auto; discriminate].
+      * (* this thread now holds the token *)
+        rewrite Eb. apply tok_none in Tk.
+        apply release_step; sproj; rewrite ?Hpc; cproj; auto; try reflexivity; try (destruct c; try discriminate Tc; reflexivity).
+        -- rewrite (g_rootq _ _ G), Tk. reflexivity.
+        -- intros u Ne. rewrite Tk. split; intros H; [injection H as H; congruence|discriminate H].
+        -- destruct c as [|k| |]; try discriminate Tc; cproj_in T8; cproj_in T9; cproj_in T10; cproj_in T15; cproj_in T16; selfrec Hpc;
+             try (split; auto).
+           intros _. apply waitinv_released; sproj; rewrite ?Hpc; auto; [apply cur_none_if_not_curpc; rewrite ?Hpc; auto|apply T9; discriminate|apply T16; auto; discriminate].
+  - (* failed *) local_fin. rewrite Hpc. unfold after_cload. pose proof Tc as Tc'.
+    destruct (b_cbc enq (ea e) 0); unfold cls; cproj; rewrite ?Tc, ?Te; reflexivity.
+Qed.
+
+Lemma step_W_ubody o old : pcs s t = W_ubody o old -> gstep s t e = Some s' -> Inv s'.
+Proof.
+  start Hpc. gett Hpc. cproj_in T1. specialize (T1 eq_refl). cproj_in T2. cproj_in T3. cproj_in T8. apply Z.eqb_eq in T3. subst o.
+  destruct (T8 eq_refl) as (P0 & E0 & S0). assert (Tk : token s = Some (Some t)) by (apply T2; reflexivity).
+  destruct (b_dunlock OWN old) as [new xr| | |] eqn:Hb; try discriminate Hts. bd Hts. ret_inv Hts. ba Ha.
+  - cas_ok old. eb_is new. pose proof (g_word _ _ G) as Wd. rewrite T1, Tk in Wd. cbn [is_some] in Wd.
+    pose proof (t_dunlock _ _ _ _ Wd Hb) as Wn.
+    pose proof (wordinv_changed_enq _ _ _ _ _ _ Wd Wn) as Ch. cbn in Ch. rewrite Ch. rewrite (wordinv_enq_bit _ _ _ Wn).
+    apply release_step; sproj; rewrite ?Hpc; auto; try reflexivity.
+    + rewrite (g_rootq _ _ G), Tk. reflexivity.
+    + intros u Ne. rewrite Tk. split; intros H; [discriminate H|injection H as H; congruence].
+    + selfrec Hpc. split; intros H; discriminate H.
+  - local_fin. rewrite Hpc. unfold after_wuload. destruct (b_dunlock OWN (ea e)); reflexivity.
+Qed.
+
+Lemma step_W_lbody fl old : pcs s t = W_lbody fl old -> gstep s t e = Some s' -> Inv s'.
+Proof.
+  start Hpc. gett Hpc. cproj_in T2. cproj_in T8. destruct (T8 eq_refl) as (P0 & E0 & S0).
+  assert (Tk : token s = Some (Some t)) by (apply T2; reflexivity).
+  destruct (b_lock t 7 old) as [new owned| | |] eqn:Hb; try discriminate Hts.
+  pose proof (g_word _ _ G) as Wd. rewrite Tk in Wd. cbn [is_some] in Wd.
+  bd Hts.
+  - (* the lane is locked by somebody else: drop the enqueued bit *) ret_inv Hts. ba Ha. cas_ok old.
+    match goal with H : _ && (eb e =? new) && _ = true |- _ => apply andb_true_iff in H as [H _]; apply andb_true_iff in H as [_ H]; apply Z.eqb_eq in H; rewrite H in * end.
+    pose proof (t_lock _ _ _ _ _ _ _ Wd valid_lt Hb) as Wn.
+    destruct (holder s) as [h|] eqn:Hh; [|destruct Wn as [_ X]; match goal with H : (owned =? 0) = true |- _ => apply Z.eqb_eq in H; lia end].
+    destruct Wn as [Wn _]. cbn [negb] in Wn.
+    pose proof (wordinv_changed_enq _ _ _ _ _ _ Wd Wn) as Ch. cbn in Ch. rewrite Ch. rewrite (wordinv_enq_bit _ _ _ Wn).
+    inv_cc. pose proof (CC_after (set_token (set_st s new) None) Idle eq_refl) as D.
+    split.
+    + apply (ginv_frame_tok (CC s) _ s); try (intros y; rewrite D; destruct (Z.eq_dec y t) as [->|]; [unfold CC; rewrite Hpc; reflexivity|reflexivity]);
+        sproj; try reflexivity; try apply G; try (intros; reflexivity).
+      * rewrite Hh. exact Wn.
+      * rewrite (g_rootq _ _ G), Tk. reflexivity.
+    + intros u. destruct (Z.eq_dec u t) as [->|Ne]; [selfrec Hpc; split; intros H; discriminate H|].
+      apply (tinv_frame (CC s) _ s); sproj; auto;
+        try (intros y; rewrite D; destruct (Z.eq_dec y t) as [->|]; [unfold CC; rewrite Hpc; reflexivity|reflexivity]);
+        try tauto; try apply T.
+      * rewrite D. destruct (Z.eq_dec u t); [contradiction|reflexivity].
+      * rewrite Tk. split; intros H; [discriminate H|injection H as H; congruence].
+  - (* locked *) ret_inv Hts. ba Ha. cas_ok old.
+    match goal with H : _ && (eb e =? new) && _ = true |- _ => apply andb_true_iff in H as [H _]; apply andb_true_iff in H as [_ H]; apply Z.eqb_eq in H; rewrite H in * end.
+    pose proof (t_lock _ _ _ _ _ _ _ Wd valid_lt Hb) as Wn.
+    destruct (holder s) as [h|] eqn:Hh; [destruct Wn as [_ X]; match goal with H : (owned =? 0) = false |- _ => apply Z.eqb_neq in H; contradiction end|].
+    destruct Wn as [Wn Ow]. 
+    pose proof (wordinv_changed_enq _ _ _ _ _ _ Wd Wn) as Ch. cbn in Ch. rewrite Ch.
+    apply acquire_step; rewrite ?Hpc, ?Tk; auto.
+    selfrec Hpc. subst owned. reflexivity.
+  - (* compare-exchange failed *) ret_inv Hts. ba Ha. local_fin. rewrite Hpc. reflexivity.
+  - (* the lock attempt restarts with a higher floor *) ret_inv Hts. ba Ha. local_fin. rewrite Hpc. reflexivity.
+Qed.
+
+(* the lock holder pops the head of the list *)
+Lemma pop1_step e1 rest tz p' :
+  holder s = Some t -> lst s = e1 :: rest -> cur s = None -> curpc (pcs s t) = false -> holdpc (pcs s t) = true ->
+  incall (pcs s t) = false -> sigof (pcs s t) = None -> wakeof (pcs s t) = None -> runof (pcs s t) = None ->
+  (dbwpc p' = true -> is_waiter_kind (e_kind e1) = true) -> (wst p' <> WNone -> dbwpc p' = true) ->
+  holdpc p' = true -> tokpc p' = tokpc (pcs s t) -> wst p' = wst (pcs s t) -> cst p' = cst (pcs s t) -> incall p' = false ->
+  sigof p' = None -> wakeof p' = None -> runof p' = None -> curpc p' = true -> sleeppc p' = false ->
+  wfpc p' = true ->
+  let s1 := set_cur (set_list s rest tz) (Some e1) in
+  let s2 := if is_waiter_kind (e_kind e1)
+            then set_ph s1 (upd (ph s) (e_own e1) (if dbwpc p' || is_sync_kind (e_kind e1) then PhPopH t else PhPopR t)) else s1 in
+  Inv (set_pc s2 t p').
+Proof.
+  intros Hh Hl Cn Hcp Hhp Hic Hsg Hwk Hrn Hdw Hwd P1 P2 P3 P4 P5 P6 P7 P8 P9 P11 P12 s1 s2.
+  pose proof (g_list _ _ G) as GL. rewrite Hl in GL. inversion GL as [|? ? Ok1 Okr]; subst.
+  pose proof (g_nodup _ _ G) as GN. rewrite Hl in GN.
+  set (w := e_own e1). set (newph := if dbwpc p' || is_sync_kind (e_kind e1) then PhPopH t else PhPopR t).
+  assert (Es2 : st s2 = st s /\ lst s2 = rest /\ rootq s2 = rootq s /\ token s2 = token s /\ holder s2 = holder s /\
+                cur s2 = Some e1 /\ running s2 = running s /\ overlap s2 = overlap s /\ early_ret s2 = early_ret s /\
+                ist s2 = ist s /\ runs s2 = runs s /\ remote s2 = remote s /\ ev s2 = ev s /\ slp s2 = slp s /\ pcs s2 = pcs s /\
+                ph s2 = (if is_waiter_kind (e_kind e1) then upd (ph s) w newph else ph s)).
+  { subst s2 s1. destruct (is_waiter_kind (e_kind e1)); sproj; repeat split; reflexivity. }
+  destruct Es2 as (E1 & E2 & E3 & E4 & E5 & E6 & E7 & E8 & E9 & E11 & E12 & E13 & E14 & E15 & Ep & E10).
+  clearbody s2. clear s1.
+  (* facts about the popped entry *)
+  assert (Kw : is_waiter_kind (e_kind e1) = true -> valid_tid w /\ ph s w = PhQueued /\ ~ In w (waiters rest)).
+  { intros K. unfold entry_ok in Ok1. rewrite K in Ok1. destruct Ok1 as [V P]. split; [exact V|]. split; [exact P|].
+    unfold waiters in GN. cbn [filter] in GN. rewrite K in GN. cbn [map] in GN. inversion GN; subst. assumption. }
+  assert (PhO : forall x, (is_waiter_kind (e_kind e1) = true -> x <> w) -> ph s2 x = ph s x).
+  { intros x Hx. rewrite E10. destruct (is_waiter_kind (e_kind e1)); [|reflexivity]. rewrite upd_other; [reflexivity|]. apply Hx. reflexivity. }
+  inv_cc. pose proof (CC_after s2 p' Ep) as D.
+  split.
+  - destruct G as [G1 G2 G3 G4 G5 G6 G7 G8]. constructor; sproj; rewrite ?E1, ?E2, ?E3, ?E4, ?E5, ?E6, ?E7, ?E8, ?E9, ?E13; auto.
+    + intros h Hh'. assert (h = t) by congruence. subst h. split; [exact Vt|]. left. rewrite CC_set_pc_same. cproj. exact P1.
+    + intros x Hx. specialize (G4 x Hx). rewrite D. destruct (Z.eq_dec x t) as [->|]; [|exact G4].
+      unfold CC in G4. cproj_in G4. congruence.
+    + intros c Hc'. injection Hc' as <-. exists t. split; [exact Hh|]. rewrite CC_set_pc_same. cproj. split; [exact P9|].
+      unfold cur_ok. sproj. rewrite CC_set_pc_same. cproj. split; [exact Hdw|].
+      destruct (is_waiter_kind (e_kind e1)) eqn:K.
+      * destruct (Kw eq_refl) as (V & _ & _). split; [exact V|]. rewrite E10. fold w. rewrite upd_same. reflexivity.
+      * unfold entry_ok in Ok1. rewrite K in Ok1. exact Ok1.
+    + rewrite Forall_forall in *. intros x Hx. specialize (Okr x Hx). unfold entry_ok in *. sproj.
+      destruct (is_waiter_kind (e_kind x)) eqn:Kx; [|exact Okr]. destruct Okr as [V P]. split; [exact V|].
+      rewrite PhO; [exact P|]. intros K Eq. destruct (Kw K) as (_ & _ & NI). apply NI. unfold waiters. rewrite in_map_iff.
+      exists x. split; [exact Eq|]. apply filter_In. auto.
+    + unfold waiters in *. cbn [filter] in GN. destruct (is_waiter_kind (e_kind e1)); [cbn [map] in GN; inversion GN; assumption|exact GN].
+  - intros u. pose proof (T u) as Tu. destruct (Z.eq_dec u t) as [->|Ne].
+    + (* the popper itself *)
+      unfold CC in Tu. destruct Tu as [T1 T2 T3 T4 T5 T6 T7 T8 T9 T10 T11 T12 T13 T14 T15 T16].
+      assert (PhT : is_waiter_kind (e_kind e1) = true -> t = w -> wst p' <> WNone ->
+                    ph s t = PhQueued /\ ph s2 t = PhPopH t).
+      { intros K Etw Hw. destruct (Kw K) as (_ & Q & _). rewrite <- Etw in Q. split; [exact Q|].
+        rewrite E10, K, <- Etw, upd_same. subst newph. rewrite (Hwd Hw). reflexivity. }
+      assert (PhT' : ~ (is_waiter_kind (e_kind e1) = true /\ t = w) -> ph s2 t = ph s t).
+      { intros N. apply PhO. intros K Eq. apply N. auto. }
+      assert (NoR : forall h, ph s t = PhPopR h -> wst (pcs s t) <> WNone -> False).
+      { intros h Q Hw. specialize (T9 Hw). unfold waitinv in T9. rewrite Q in T9.
+        destruct T9 as (A & B & _). assert (h = t) by congruence. contradiction. }
+      assert (NoH : forall h, ph s t = PhPopH h -> wst (pcs s t) <> WNone -> False).
+      { intros h Q Hw. specialize (T9 Hw). unfold waitinv in T9. rewrite Q in T9.
+        destruct T9 as (_ & _ & c & X & _). congruence. }
+      assert (Cases : (is_waiter_kind (e_kind e1) = true /\ t = w) \/ ~ (is_waiter_kind (e_kind e1) = true /\ t = w)).
+      { destruct (is_waiter_kind (e_kind e1)); [|right; intros [X _]; discriminate X].
+        destruct (Z.eq_dec t w); [left; auto|right; intros [_ X]; contradiction]. }
+      constructor; rewrite ?CC_set_pc_same; cproj; unfold item0; sproj;
+        rewrite ?P1, ?P2, ?P3, ?P4, ?P5, ?P6, ?P7, ?P8, ?P9, ?P11, ?P12, ?E4, ?E5, ?E6, ?E7, ?E11, ?E12, ?E13, ?E14, ?E15;
+        try discriminate; try (intros; discriminate); auto.
+      * intros Hw. destruct (T8 Hw) as (A & B & C0). rewrite PhT'; [auto|]. intros [K Eq]. destruct (Kw K) as (_ & Q & _).
+        rewrite <- Eq in Q. congruence.
+      * intros Hw. specialize (T9 Hw). unfold waitinv, handed_or_done, item0 in *. sproj. rewrite E5, E6, E11, E12, E13.
+        destruct Cases as [[K Etw]|N].
+        -- rewrite <- P3 in Hw. destruct (PhT K Etw Hw) as [Q Q2]. rewrite Q in T9. rewrite Q2.
+           split; [exact T9|]. split; [exact Hh|]. exists e1. auto.
+        -- rewrite (PhT' N). destruct (ph s t) as [| |h|h|d|] eqn:Q; auto.
+           ++ exfalso. apply (NoH h eq_refl Hw).
+           ++ exfalso. apply (NoR h eq_refl Hw).
+           ++ destruct T9 as [A B]. split; [|exact B]. rewrite D. destruct (Z.eq_dec d t) as [->|]; [|exact A].
+              unfold CC in A. cproj_in A. congruence.
+      * intros Hw. destruct (T10 Hw) as [A B]. split; [|exact B]. rewrite A.
+        destruct Cases as [[K Etw]|N].
+        -- assert (Hw' : wst p' <> WNone) by (rewrite P3, Hw; discriminate). destruct (PhT K Etw Hw') as [Q Q2]. rewrite Q, Q2. reflexivity.
+        -- rewrite (PhT' N). reflexivity.
+      * intros Hw. destruct (T11 Hw) as [A B].
+        assert (Eq : ph s2 t = ph s t \/ (ph s t = PhQueued /\ ph s2 t = PhPopH t)).
+        { destruct Cases as [[K Etw]|N]; [right; apply (PhT K Etw); rewrite P3, Hw; discriminate|left; exact (PhT' N)]. }
+        destruct Eq as [Eq|[Q Q2]].
+        -- exfalso. apply (hold_not_post _ Hhp Hw).
+        -- exfalso. apply (hold_not_post _ Hhp Hw).
+      * intros Hw. exfalso. apply (hold_not_woken _ Hhp Hw).
+      * intros _ Hw. cproj_in T16. specialize (T16 Hhp Hw).
+        destruct Cases as [[K Etw]|N].
+        -- assert (Hw' : wst p' <> WNone) by (rewrite P3; exact Hw). destruct (PhT K Etw Hw') as [Q Q2]. rewrite Q2. exact I.
+        -- rewrite (PhT' N). exact T16.
+    + (* everybody else *)
+      assert (Cu : CC (set_pc s2 t p') u = CC s u) by (rewrite D; destruct (Z.eq_dec u t); [contradiction|reflexivity]).
+      assert (NotHold : c_hold (CC s u) = false).
+      { destruct (c_hold (CC s u)) eqn:X; [|reflexivity]. pose proof (t_hold _ _ _ Tu X). congruence. }
+      destruct Tu as [T1 T2 T3 T4 T5 T6 T7 T8 T9 T10 T11 T12 T13 T14 T15 T16].
+      assert (SigU : forall d, c_sig (CC (set_pc s2 t p') d) = Some u -> c_sig (CC s d) = Some u).
+      { intros d. rewrite D. destruct (Z.eq_dec d t) as [->|]; [cproj; rewrite P6; discriminate|auto]. }
+      destruct (is_waiter_kind (e_kind e1)) eqn:K.
+      * destruct (Kw eq_refl) as (Vw & Qw & NIw).
+        destruct (Z.eq_dec u w) as [Euw|Nuw].
+        -- (* the waiter whose context was popped *)
+           assert (Pu : ph s2 u = newph) by (rewrite E10, Euw, upd_same; reflexivity).
+           assert (Qu : ph s u = PhQueued) by (rewrite Euw; exact Qw).
+           assert (Wn : c_wst (CC s u) <> WNone).
+           { intros X. destruct (T8 X) as (A & _). congruence. }
+           specialize (T9 Wn). unfold waitinv in T9. rewrite Qu in T9.
+           constructor; rewrite ?Cu; unfold item0; sproj; rewrite ?E4, ?E5, ?E6, ?E7, ?E11, ?E12, ?E13, ?E14, ?E15, ?Pu; auto.
+           ++ intros x Hx. rewrite PhO; [auto|]. intros _ Ex. subst x. specialize (T5 _ Hx). congruence.
+           ++ intros x Hx Nx. rewrite PhO; [auto|]. intros _ Ex. subst x. specialize (T6 _ Hx Nx). congruence.
+           ++ intros _. discriminate.
+           ++ intros X. exfalso. apply Wn. exact X.
+           ++ intros _. unfold waitinv, handed_or_done, item0. sproj. rewrite Pu, E5, E6, E11, E12, E13. subst newph.
+              destruct (dbwpc p' || is_sync_kind (e_kind e1)).
+              ** split; [exact T9|]. split; [exact Hh|]. exists e1. auto.
+              ** split; [exact Hh|]. split; [congruence|]. left. split; [exact T9|]. exists e1. auto.
+           ++ intros X. destruct (T10 X) as [A B]. split; [|exact B]. rewrite A, Qu. subst newph. destruct (dbwpc p' || is_sync_kind (e_kind e1)); reflexivity.
+           ++ intros X. destruct (T11 X) as [A B]. rewrite Qu in A, B. split; [rewrite A; subst newph; destruct (dbwpc p' || is_sync_kind (e_kind e1)); reflexivity|].
+              intros Hs. destruct (B Hs) as [B1 B2]. split; [exact B1|]. intros Y. subst newph. destruct (dbwpc p' || is_sync_kind (e_kind e1)); discriminate Y.
+           ++ intros X. destruct (T12 X) as (A & _). congruence.
+           ++ rewrite NotHold. discriminate.
+        -- (* an unrelated thread *)
+           assert (Pu : ph s2 u = ph s u) by (apply PhO; intros _; exact Nuw).
+           constructor; rewrite ?Cu; unfold item0; sproj; rewrite ?E4, ?E5, ?E6, ?E7, ?E11, ?E12, ?E13, ?E14, ?E15, ?Pu; auto.
+           ++ intros x Hx. rewrite PhO; [auto|]. intros _ Ex. subst x. specialize (T5 _ Hx). congruence.
+           ++ intros x Hx Nx. rewrite PhO; [auto|]. intros _ Ex. subst x. specialize (T6 _ Hx Nx). congruence.
+           ++ intros _. discriminate.
+           ++ intros X. specialize (T9 X). unfold waitinv, handed_or_done, item0 in *. sproj. rewrite Pu, E5, E6, E11, E12, E13.
+              destruct (ph s u) as [| |h|h|d|]; auto.
+              ** destruct T9 as (_ & _ & c & Y & _). congruence.
+              ** destruct T9 as (A & B & [(_ & c & Y & _)|(R1 & R2)]); [congruence|]. assert (h = t) by congruence. subst h.
+                 unfold CC in R1. cproj_in R1. congruence.
+              ** destruct T9 as [A B]. split; [|exact B]. rewrite D. destruct (Z.eq_dec d t) as [->|]; [|exact A].
+                 unfold CC in A. cproj_in A. congruence.
+           ++ intros X. destruct (T11 X) as [A B]. split; [exact A|]. intros Hs. destruct (B Hs) as [B1 B2]. split; [exact B1|].
+              intros Y. destruct (B2 Y) as [d Hd]. exists d. rewrite D. destruct (Z.eq_dec d t) as [->|]; [|exact Hd].
+              unfold CC in Hd. cproj_in Hd. congruence.
+      * (* an asynchronous item was popped: no phase changes *)
+        assert (Pu : forall x, ph s2 x = ph s x) by (intros x; apply PhO; intros X; discriminate X).
+        constructor; rewrite ?Cu; unfold item0; sproj; rewrite ?E4, ?E5, ?E6, ?E7, ?E11, ?E12, ?E13, ?E14, ?E15, ?Pu; auto.
+        -- intros x Hx. rewrite Pu. auto.
+        -- intros x Hx Nx. rewrite Pu. auto.
+        -- intros _. discriminate.
+        -- intros X. specialize (T9 X). unfold waitinv, handed_or_done, item0 in *. sproj. rewrite Pu, E5, E6, E11, E12, E13.
+           destruct (ph s u) as [| |h|h|d|]; auto.
+           ++ destruct T9 as (_ & _ & c & Y & _). congruence.
+           ++ destruct T9 as (A & B & [(_ & c & Y & _)|(R1 & R2)]); [congruence|]. assert (h = t) by congruence. subst h.
+              unfold CC in R1. cproj_in R1. congruence.
+           ++ destruct T9 as [A B]. split; [|exact B]. rewrite D. destruct (Z.eq_dec d t) as [->|]; [|exact A].
+              unfold CC in A. cproj_in A. congruence.
+        -- intros X. destruct (T11 X) as [A B]. split; [exact A|]. intros Hs. destruct (B Hs) as [B1 B2]. split; [exact B1|].
+           intros Y. destruct (B2 Y) as [d Hd]. exists d. rewrite D. destruct (Z.eq_dec d t) as [->|]; [|exact Hd].
+           unfold CC in Hd. cproj_in Hd. congruence.
+Qed.
+
+Lemma step_W_pop o : pcs s t = W_pop o -> gstep s t e = Some s' -> Inv s'.
+Proof.
+  start Hpc. gett Hpc. cproj_in T1. specialize (T1 eq_refl). cproj_in T3.
+  bd Hts. ret_inv Hts.
+  apply acts_cons in Ha as (sx & HX & Ha). apply acts_nil in Ha. subst sx. cbn [apply_act] in HX.
+  destruct (lst s) as [|e1 rest] eqn:Hl; [discriminate HX|]. destruct (cur s) as [c|] eqn:Cn; [discriminate HX|].
+  bd HX; injection HX as <-; destruct (eb e =? 0) eqn:En;
+  (apply pop1_step; rewrite ?Hpc; auto; try reflexivity; try discriminate;
+   try (let X := fresh in intros X; exfalso; apply X; reflexivity)).
+Qed.
+
+Lemma step_B_dec c : pcs s t = B_dec c -> gstep s t e = Some s' -> Inv s'.
+Proof.
+  start Hpc. gett Hpc. cproj_in T1. specialize (T1 eq_refl). cproj_in T3.
+  bd Hts.
+  - (* the head is a waiter: pop it and hand the lock over *) ret_inv Hts.
+    apply acts_cons in Ha as (sx & HX & Ha). cbn [apply_act] in HX.
+    destruct (lst s) as [|e1 rest] eqn:Hl; [discriminate HX|]. bd HX. injection HX as <-.
+    match goal with H : eqb (is_waiter_kind (e_kind e1)) true = true |- _ => apply eqb_prop in H; rename H into K end.
+    apply acts_cons in Ha as (sx & HX & Ha). apply acts_nil in Ha. subst sx. cbn [apply_act] in HX. rewrite Hl in HX.
+    destruct (cur s) as [c0|] eqn:Cn; [discriminate HX|].
+    bd HX; injection HX as <-; destruct (eb e =? 0) eqn:En;
+    (apply pop1_step; rewrite ?Hpc; cproj; auto; try reflexivity; try discriminate;
+     try (destruct c; try discriminate T3; reflexivity)).
+  - (* anything else: give the lane back *) ret_inv Hts. ba Ha.
+    local_fin. rewrite Hpc. unfold after_cload. destruct (b_cbc ENQ (ea e) 0); unfold cls; cproj; rewrite ?T3; reflexivity.
+Qed.
+
+(* the lock holder t hands the drain lock to waiter w, whose context it has popped *)
+Lemma xfer_step c w new tk' c0 :
+  pcs s t = D_body c (if cont_work c then ENQ else 0) (st s) -> cont_hold c = false ->
+  holder s = Some t -> cur s = Some c0 -> e_own c0 = w -> is_waiter_kind (e_kind c0) = true ->
+  wordinv new (Some w) (is_some tk') -> rootq s = (match tk' with Some None => 1 | _ => 0 end) ->
+  (tk' = Some (Some t) <-> False) -> (forall u, u <> t -> (tk' = Some (Some u) <-> token s = Some (Some u))) ->
+  Inv (set_pc (set_ph (set_cur (set_holder (set_token (set_st s new) tk') (Some w)) None) (upd (ph s) w (PhSig t))) t (G_sig c w)).
+Proof.
+  intros Hpc Hch Hh Hcur Hown Hk Wn Rq Tkt Tku.
+  pose proof (T t) as Tt. unfold CC in Tt. destruct Tt as [T1 T2 T3 T4 T5 T6 T7 T8 T9 T10 T11 T12 T13 T14 T15 T16]. rewrite Hpc in *.
+  destruct (g_cur _ _ G c0 Hcur) as (h & H1 & H2 & H3). assert (h = t) by congruence. subst h.
+  unfold cur_ok, CC in H3. rewrite Hpc in H3. cproj_in H3. destruct H3 as [_ H3]. rewrite Hk, Hown in H3. cbn [orb] in H3.
+  destruct H3 as [Vw Pw].
+  assert (Ww : wst (pcs s w) <> WNone).
+  { intros X. pose proof (t_nowait _ _ _ (T w)) as Y. unfold CC in Y. cproj_in Y. destruct (Y X) as (A & _). congruence. }
+  assert (Iw : item0 s w).
+  { pose proof (t_wait _ _ _ (T w)) as Y. unfold CC in Y. cproj_in Y. specialize (Y Ww). unfold waitinv in Y. rewrite Pw in Y. apply Y. }
+  inv_cc.
+  match goal with |- InvP (CC (set_pc ?S1 _ _)) _ => pose proof (CC_after S1 (G_sig c w) eq_refl) as D end.
+  assert (PhO : forall x, x <> w -> upd (ph s) w (PhSig t) x = ph s x) by (intros x Nx; apply upd_other; exact Nx).
+  split.
+  - destruct G as [G1 G2 G3 G4 G5 G6 G7 G8]. constructor; sproj; auto.
+    + intros h Hh'. injection Hh' as <-. split; [exact Vw|]. right. rewrite D. rewrite upd_same.
+      destruct (Z.eq_dec w t) as [->|Nw].
+      * cproj. rewrite Hch. split; [reflexivity|]. unfold CC in Ww. rewrite Hpc in Ww. cproj_in Ww. split; [exact Ww|].
+        split; [apply Iw|]. right. exists t. reflexivity.
+      * split.
+        -- destruct (c_hold (CC s w)) eqn:X; [|reflexivity]. pose proof (t_hold _ _ _ (T w) X). congruence.
+        -- split; [exact Ww|]. split; [apply Iw|]. right. exists t. reflexivity.
+    + intros x Hx. specialize (G4 x Hx). rewrite D. destruct (Z.eq_dec x t) as [->|]; [|exact G4].
+      unfold CC in G4. rewrite Hpc in G4. discriminate G4.
+    + intros c1 Hc1. discriminate Hc1.
+    + rewrite Forall_forall in *. intros x Hx. specialize (G7 x Hx). unfold entry_ok in *. sproj.
+      destruct (is_waiter_kind (e_kind x)); [|exact G7]. destruct G7 as [V P]. split; [exact V|].
+      rewrite PhO; [exact P|]. intros Ex. rewrite Ex in P. congruence.
+  - intros u. pose proof (T u) as Tu. destruct (Z.eq_dec u t) as [->|Ne].
+    + (* the thread that hands over *)
+      constructor; rewrite ?CC_set_pc_same; cproj; unfold item0; sproj; rewrite ?Hch; try discriminate; try (intros; discriminate); auto.
+      * split; [discriminate|]. intros X. exfalso. apply Tkt. exact X.
+      * cproj_in T3. unfold valid_tid in Vw. apply andb_true_iff. split; [apply andb_true_iff; split|].
+        -- destruct c; try reflexivity. discriminate Hch.
+        -- apply Z.ltb_lt. lia.
+        -- apply Z.leb_le. lia.
+      * intros x Hx. injection Hx as <-. rewrite upd_same. reflexivity.
+      * intros Hw. cproj_in T8. destruct (T8 Hw) as (A & B & C1). split; [|auto].
+        rewrite PhO; [exact A|]. intros Ex. subst w. congruence.
+      * intros Hw. cproj_in T9. specialize (T9 Hw). cproj_in T16. specialize (T16 eq_refl Hw).
+        unfold waitinv, handed_or_done, item0 in *. sproj.
+        destruct (Z.eq_dec t w) as [Etw|Ntw].
+        -- rewrite <- Etw. rewrite upd_same. split; [rewrite CC_after by reflexivity; destruct (Z.eq_dec t t); [reflexivity|contradiction]|].
+           left. split; [reflexivity|]. rewrite Etw. apply Iw.
+        -- rewrite PhO by exact Ntw. destruct (ph s t) as [| |h|h|d|]; auto.
+           ++ destruct T9 as (_ & _ & c1 & X & Y & _). exfalso. assert (c1 = c0) by congruence. subst c1. congruence.
+           ++ destruct T9 as (A & B & _). exfalso. assert (h = t) by congruence. contradiction.
+           ++ destruct T9 as [A [[_ (_ & _ & X)]|B]]; [congruence|]. split; [|right; exact B].
+              rewrite D. destruct (Z.eq_dec d t) as [->|]; [|exact A]. cbv beta in A. rewrite Hpc in A. discriminate A.
+           ++ destruct T9 as [[_ (_ & _ & X)]|B]; [congruence|]. right. exact B.
+      * intros Hw. cproj_in T10. destruct (T10 Hw) as [A B]. split; [|exact B]. rewrite A.
+        destruct (Z.eq_dec t w) as [Etw|Ntw].
+        -- rewrite <- Etw, upd_same. rewrite <- Etw in Pw. rewrite Pw. reflexivity.
+        -- rewrite PhO by exact Ntw. reflexivity.
+      * intros Hw. exfalso. cproj_in T1. apply (hold_not_post (D_body c (if cont_work c then ENQ else 0) (st s))); [reflexivity|exact Hw].
+      * intros Hw. exfalso. apply (hold_not_woken (D_body c (if cont_work c then ENQ else 0) (st s))); [reflexivity|exact Hw].
+    + (* everybody else *)
+      assert (Cu : forall S1, pcs S1 = pcs s -> CC (set_pc S1 t (G_sig c w)) u = CC s u).
+      { intros S1 E. rewrite CC_after by exact E. destruct (Z.eq_dec u t); [contradiction|reflexivity]. }
+      assert (NotHold : c_hold (CC s u) = false).
+      { destruct (c_hold (CC s u)) eqn:X; [|reflexivity]. pose proof (t_hold _ _ _ Tu X). congruence. }
+      destruct Tu as [U1 U2 U3 U4 U5 U6 U7 U8 U9 U10 U11 U12 U13 U14 U15 U16].
+      constructor; rewrite ?Cu by reflexivity; unfold item0; sproj; auto.
+      * rewrite NotHold. discriminate.
+      * rewrite (Tku u Ne). exact U2.
+      * intros x Hx. rewrite PhO; [auto|]. intros Ex. subst x. specialize (U5 _ Hx). congruence.
+      * intros x Hx Nx. rewrite PhO; [auto|]. intros Ex. subst x. specialize (U6 _ Hx Nx). congruence.
+      * intros X. exfalso. pose proof (cur_hold (pcs s u) X) as Y. unfold CC in NotHold. cproj_in NotHold. congruence.
+      * intros X. destruct (U8 X) as (A & B & C1). split; [|auto]. rewrite PhO; [exact A|]. intros Ex. subst u. congruence.
+      * intros X. specialize (U9 X). unfold waitinv, handed_or_done, item0 in *. sproj.
+        destruct (Z.eq_dec u w) as [->|Nuw].
+        -- rewrite upd_same. split; [rewrite D; destruct (Z.eq_dec t t); [reflexivity|contradiction]|].
+           left. split; [reflexivity|]. apply Iw.
+        -- rewrite PhO by exact Nuw. destruct (ph s u) as [| |h|h|d|]; auto.
+           ++ destruct U9 as (_ & _ & c1 & X1 & Y & _). exfalso. assert (c1 = c0) by congruence. subst c1. congruence.
+           ++ destruct U9 as (A & B & [(_ & c1 & X1 & Y & _)|(R1 & _)]); exfalso.
+              ** assert (c1 = c0) by congruence. subst c1. congruence.
+              ** assert (h = t) by congruence. subst h. unfold CC in R1. rewrite Hpc in R1. discriminate R1.
+           ++ destruct U9 as [A [[X1 _]|B]]; [congruence|]. split; [|right; exact B].
+              rewrite D. destruct (Z.eq_dec d t) as [->|]; [|exact A]. unfold CC in A. rewrite Hpc in A. discriminate A.
+           ++ destruct U9 as [[X1 _]|B]; [congruence|]. right. exact B.
+      * intros X. destruct (U10 X) as [A B]. split; [|exact B]. rewrite A.
+        destruct (Z.eq_dec u w) as [->|Nuw]; [rewrite upd_same, Pw; reflexivity|rewrite PhO by exact Nuw; reflexivity].
+      * intros X. destruct (U11 X) as [A B].
+        destruct (Z.eq_dec u w) as [->|Nuw].
+        -- rewrite upd_same. rewrite Pw in A. split; [exact A|]. intros Hs. destruct (B Hs) as [B1 B2]. split; [exact B1|].
+           intros Y. discriminate Y.
+        -- rewrite PhO by exact Nuw. split; [exact A|]. intros Hs. destruct (B Hs) as [B1 B2]. split; [exact B1|].
+           intros Y. destruct (B2 Y) as [d Hd]. exists d. rewrite D. destruct (Z.eq_dec d t) as [->|]; [|exact Hd].
+           unfold CC in Hd. rewrite Hpc in Hd. discriminate Hd.
+      * intros X. destruct (U12 X) as (A & B & C1). split; [|auto]. rewrite PhO; [exact A|]. intros Ex. subst u. congruence.
+      * rewrite NotHold. discriminate.
+Qed.
+
+Lemma step_D_body c enq old : pcs s t = D_body c enq old -> gstep s t e = Some s' -> Inv s'.
+Proof.
+  start Hpc. gett Hpc. cproj_in T1. specialize (T1 eq_refl). cproj_in T2. cproj_in T3. cproj_in T7.
+  set (w := Z.land (eb e) OWNER_MASK) in *.
+  destruct (b_dbw enq old w) as [new xr| | |] eqn:Hb; try discriminate Hts.
+  bd Hts.
+  - (* ownership transferred *) ret_inv Hts.
+    match goal with H : _ && (eb e =? new) && (0 <? w) = true |- _ =>
+      apply andb_true_iff in H as [H Hw0]; apply andb_true_iff in H as [_ H]; apply Z.eqb_eq in H; rename H into Enew; apply Z.ltb_lt in Hw0 end.
+    apply acts_cons in Ha as (sx & HX & Ha). apply acts_nil in Ha. subst sx. cbn [apply_act] in HX.
+    bd HX; try congruence. injection HX as <-. cas_ok old.
+    match goal with H : cur s = Some ?c |- _ => rename H into Cn; set (c0 := c) in * end.
+    match goal with H : (e_own c0 =? w) && is_waiter_kind (e_kind c0) = true |- _ => apply andb_true_iff in H as [Ho Hk]; apply Z.eqb_eq in Ho end.
+    assert (Ww : 0 < w < 1073741824).
+    { split; [exact Hw0|]. subst w. unfold OWNER_MASK, DLOCK_OWNER_MASK. rewrite Z.land_comm.
+      pose proof (Z.land_nonneg 1073741823 (eb e)). pose proof (Bits.land_le 1073741823 (eb e)). lia. }
+    pose proof (g_word _ _ G) as Wd. rewrite T1 in Wd. rewrite Enew in *.
+    destruct c as [|k| |o n]; cproj_in T3; try discriminate T3; apply Z.eqb_eq in T3; subst enq.
+    + (* from a completing synchronous call *)
+      pose proof (t_dbw0 _ _ _ _ _ _ Wd Ww Hb) as Wn.
+      pose proof (wordinv_changed_enq _ _ _ _ _ _ Wd Wn) as Ch. rewrite eqb_reflx in Ch. cbn [negb] in Ch. rewrite Ch.
+      apply (xfer_step CRet w new (token s) c0); auto.
+      * apply (g_rootq _ _ G).
+      * split; [|contradiction]. intros X. apply T2 in X. discriminate X.
+      * intros; tauto.
+    + (* from a waiter that had taken the lock itself *)
+      pose proof (t_dbw0 _ _ _ _ _ _ Wd Ww Hb) as Wn.
+      pose proof (wordinv_changed_enq _ _ _ _ _ _ Wd Wn) as Ch. rewrite eqb_reflx in Ch. cbn [negb] in Ch. rewrite Ch.
+      apply (xfer_step (CWait k) w new (token s) c0); auto.
+      * apply (g_rootq _ _ G).
+      * split; [|contradiction]. intros X. apply T2 in X. discriminate X.
+      * intros; tauto.
+    + (* from a worker: the enqueued bit it owns goes away with the lock *)
+      assert (Tk : token s = Some (Some t)) by (apply T2; reflexivity). rewrite Tk in Wd. cbn [is_some] in Wd.
+      pose proof (t_dbw1 _ _ _ _ _ Wd Ww Hb) as Wn.
+      pose proof (wordinv_changed_enq _ _ _ _ _ _ Wd Wn) as Ch. cbn in Ch. rewrite Ch. rewrite (wordinv_enq_bit _ _ _ Wn).
+      apply (xfer_step CWorker w new None c0); auto.
+      * rewrite (g_rootq _ _ G), Tk. reflexivity.
+      * split; [discriminate|contradiction].
+      * intros u Ne. rewrite Tk. split; intros X; [discriminate X|injection X as X; congruence].
+  - (* compare-exchange failed *) ret_inv Hts. ba Ha. local_fin. rewrite Hpc. reflexivity.
+Qed.
+
+Lemma cls_cont_pc c w : okcont c = true ->
+  cls (cont_pc c) = {| c_hold := cont_hold c; c_tok := cont_hold c; c_wst := cont_wst c; c_cst := cont_cst c; c_incall := false;
+                       c_sig := None; c_wake := None; c_run := None; c_cur := false; c_dbw := false; c_sleep := false; c_wf := true |} /\
+  cls (G_wake c w) = {| c_hold := cont_hold c; c_tok := cont_hold c; c_wst := cont_wst c; c_cst := cont_cst c; c_incall := false;
+                       c_sig := None; c_wake := Some w; c_run := None; c_cur := false; c_dbw := false; c_sleep := false;
+                       c_wf := okcont c && (0 <? w) && (w <=? OWNER_MASK) |}.
+Proof.
+  intros Ok. destruct c as [|k| |o n]; try (split; reflexivity).
+  unfold okcont in Ok. cproj. destruct (n =? 0); unfold cls; cproj; rewrite Ok; split; reflexivity.
+Qed.
+
+(* t signals the thread event of waiter w *)
+Lemma step_G_sig c w : pcs s t = G_sig c w -> gstep s t e = Some s' -> Inv s'.
+Proof.
+  start Hpc. gett Hpc. cproj_in T3. cproj_in T5. specialize (T5 w eq_refl).
+  apply andb_true_iff in T3 as [T3 Tw2]. apply andb_true_iff in T3 as [Tc Tw1].
+  bd Hts. ret_inv Hts. ba Ha.
+  match goal with H : (ea e =? ev s w) = true |- _ => apply Z.eqb_eq in H; rename H into Ea end.
+  destruct (cls_cont_pc c w Tc) as [Kc Kw].
+  set (p' := if ea e =? 0 then cont_pc c else G_wake c w).
+  pose proof (T w) as Tw. unfold CC in Tw. destruct Tw as [W1 W2 W3 W4 W5 W6 W7 W8 W9 W10 W11 W12 W13 W14 W15 W16].
+  assert (Ww : c_wst (cls (pcs s w)) <> WNone).
+  { intros X. destruct (W8 X) as (A & _). congruence. }
+  specialize (W9 Ww). unfold waitinv in W9. rewrite T5 in W9. destruct W9 as [_ Hod].
+  inv_cc.
+  match goal with |- InvP (CC (set_pc ?S1 _ _)) _ => pose proof (CC_after S1 p' eq_refl) as D end.
+  assert (PhO : forall x, x <> w -> upd (ph s) w PhSigd x = ph s x) by (intros x Nx; apply upd_other; exact Nx).
+  assert (Dims : c_hold (cls p') = c_hold (cls (G_sig c w)) /\ c_tok (cls p') = c_tok (cls (G_sig c w)) /\
+                 c_wst (cls p') = c_wst (cls (G_sig c w)) /\ c_cst (cls p') = c_cst (cls (G_sig c w)) /\
+                 c_incall (cls p') = false /\ c_sig (cls p') = None /\ c_run (cls p') = None /\ c_cur (cls p') = false /\
+                 c_dbw (cls p') = false /\ c_sleep (cls p') = false /\ c_wf (cls p') = true /\
+                 c_wake (cls p') = (if ea e =? 0 then None else Some w)).
+  { subst p'. destruct (ea e =? 0); [rewrite Kc|rewrite Kw]; cproj; rewrite ?Tc, ?Tw1, ?Tw2; repeat split; reflexivity. }
+  destruct Dims as (D1 & D2 & D3 & D4 & D5 & D6 & D7 & D8 & D9 & D10 & D11 & D12).
+  split.
+  - destruct G as [G1 G2 G3 G4 G5 G6 G7 G8]. constructor; sproj; auto.
+    + intros h Hh. destruct (G3 h Hh) as [V X]. split; [exact V|]. rewrite D. destruct (Z.eq_dec h t) as [->|Nh].
+      * unfold CC in X. rewrite Hpc in X. rewrite D1, D3.
+        destruct X as [X|(X1 & X2 & X3 & X4)]; [left; exact X|right]. split; [exact X1|]. split; [exact X2|]. split; [exact X3|].
+        destruct (Z.eq_dec t w) as [->|Ntw]; [rewrite upd_same; left; reflexivity|rewrite PhO by exact Ntw; exact X4].
+      * destruct X as [X|(X1 & X2 & X3 & X4)]; [left; exact X|right]. split; [exact X1|]. split; [exact X2|]. split; [exact X3|].
+        destruct (Z.eq_dec h w) as [->|Nhw]; [rewrite upd_same; left; reflexivity|rewrite PhO by exact Nhw; exact X4].
+    + intros x Hx. specialize (G4 x Hx). rewrite D. destruct (Z.eq_dec x t) as [->|]; [|exact G4].
+      unfold CC in G4. rewrite Hpc in G4. discriminate G4.
+    + intros c1 Hc1. destruct (G6 c1 Hc1) as (h & H1 & H2 & H3). exists h. split; [exact H1|].
+      unfold cur_ok in *. sproj. rewrite !D. destruct (Z.eq_dec h t) as [->|Nh].
+      * exfalso. unfold CC in H2. rewrite Hpc in H2. discriminate H2.
+      * split; [exact H2|]. destruct H3 as [H3 H4]. split; [exact H3|]. destruct (is_waiter_kind (e_kind c1)); [|exact H4].
+        destruct H4 as [V P]. split; [exact V|]. rewrite PhO; [exact P|]. intros Ex. rewrite Ex in P. rewrite T5 in P.
+        match type of P with _ = (if ?cnd then _ else _) => destruct cnd end; discriminate P.
+    + rewrite Forall_forall in *. intros x Hx. specialize (G7 x Hx). unfold entry_ok in *. sproj.
+      destruct (is_waiter_kind (e_kind x)); [|exact G7]. destruct G7 as [V P]. split; [exact V|].
+      rewrite PhO; [exact P|]. intros Ex. rewrite Ex in P. congruence.
+  - intros u. pose proof (T u) as Tu. unfold CC in Tu. destruct (Z.eq_dec u t) as [->|Ne].
+    + (* the signaller *)
+      clear Tu.
+      constructor; rewrite ?CC_set_pc_same, ?D1, ?D2, ?D3, ?D4, ?D5, ?D6, ?D7, ?D8, ?D10, ?D11; unfold item0; sproj;
+        try discriminate; try (intros; discriminate); auto.
+      * intros X. destruct (T8 X) as (A & B & C1). split; [|split].
+        -- rewrite PhO; [exact A|]. intros Ex. subst w. congruence.
+        -- destruct (Z.eq_dec t w) as [Ex|Nx]; [subst w; congruence|rewrite upd_other by exact Nx; exact B].
+        -- exact C1.
+      * intros X. specialize (T9 X). unfold waitinv, handed_or_done, item0 in *. sproj.
+        destruct (Z.eq_dec t w) as [Etw|Ntw].
+        -- rewrite <- Etw, upd_same. rewrite <- Etw in Hod. exact Hod.
+        -- rewrite PhO by exact Ntw. destruct (ph s t) as [| |h|h|d|]; auto.
+           ++ destruct T9 as (A & B & [Y|(R1 & R2)]); [split; [exact A|]; split; [exact B|]; left; exact Y|].
+              split; [exact A|]. split; [exact B|]. right. split; [|exact R2]. rewrite D. destruct (Z.eq_dec h t) as [->|]; [contradiction|exact R1].
+           ++ destruct T9 as [A B]. split; [|exact B]. rewrite D. destruct (Z.eq_dec d t) as [->|]; [|exact A].
+              cbv beta in A. rewrite Hpc in A. cproj_in A. congruence.
+      * intros X. destruct (T10 X) as [A B]. destruct (Z.eq_dec t w) as [Etw|Ntw].
+        -- rewrite <- Etw, !upd_same. rewrite <- Etw in T5, Ea. rewrite T5 in A. cbn [is_sigd] in A. rewrite A. split; [reflexivity|exact B].
+        -- rewrite PhO by exact Ntw. rewrite upd_other by exact Ntw. auto.
+      * intros X. exfalso. destruct c; cproj_in X; discriminate X.
+      * intros X. exfalso. destruct c; cproj_in X; discriminate X.
+      * destruct c; cproj; intros X Y; try discriminate X. exfalso. apply Y. reflexivity.
+    + (* everybody else *)
+      assert (Cu : CC (set_pc (set_ph (set_ev s (upd (ev s) w (u32 (ev s w + 1)))) (upd (ph s) w PhSigd)) t p') u = cls (pcs s u)).
+      { rewrite D. destruct (Z.eq_dec u t); [contradiction|reflexivity]. }
+      destruct Tu as [U1 U2 U3 U4 U5 U6 U7 U8 U9 U10 U11 U12 U13 U14 U15 U16].
+      assert (SigX : forall x, c_sig (cls (pcs s u)) = Some x -> x <> w).
+      { intros x Hx Ex. subst x. specialize (U5 _ Hx). rewrite T5 in U5. congruence. }
+      assert (RunX : forall x, c_run (cls (pcs s u)) = Some x -> x <> 0 -> x <> w).
+      { intros x Hx Nx Ex. subst x. specialize (U6 _ Hx Nx). rewrite T5 in U6. congruence. }
+      destruct (Z.eq_dec u w) as [->|Nuw].
+      * (* the waiter being signalled *)
+        constructor; rewrite ?Cu; unfold item0; sproj; rewrite ?upd_same; auto.
+        -- intros x Hx. rewrite PhO; [auto|]. apply SigX. exact Hx.
+        -- intros x Hx Nx. rewrite PhO; [auto|]. apply RunX; assumption.
+        -- intros X. exfalso. apply Ww. exact X.
+        -- intros _. unfold waitinv, handed_or_done, item0. sproj. rewrite upd_same. exact Hod.
+        -- intros X. destruct (U10 X) as [A B]. rewrite T5 in A. cbn [is_sigd] in A |- *. rewrite A. split; [reflexivity|exact B].
+        -- intros X. destruct (U11 X) as [A B]. rewrite T5 in A. cbn [is_sigd] in A |- *. rewrite A. split; [reflexivity|].
+           intros Hs. destruct (B Hs) as [B1 _]. split; [exact B1|]. intros _. exists t. rewrite CC_set_pc_same, D12.
+           rewrite Ea, A. reflexivity.
+        -- intros X. destruct (U12 X) as (A & _). congruence.
+        -- intros X Y. specialize (U16 X Y). rewrite T5 in U16. exact U16.
+      * (* an unrelated thread *)
+        constructor; rewrite ?Cu; unfold item0; sproj; rewrite ?(PhO u Nuw), ?upd_other by exact Nuw; auto.
+        -- intros x Hx. rewrite PhO; [auto|]. apply SigX. exact Hx.
+        -- intros x Hx Nx. rewrite PhO; [auto|]. apply RunX; assumption.
+        -- intros X. specialize (U9 X). unfold waitinv, handed_or_done, item0 in *. sproj. rewrite (PhO u Nuw).
+           destruct (ph s u) as [| |h|h|d|]; auto.
+           ++ destruct U9 as (A & B & [Y|(R1 & R2)]); [split; [exact A|]; split; [exact B|]; left; exact Y|].
+              split; [exact A|]. split; [exact B|]. right. split; [|exact R2]. rewrite D. destruct (Z.eq_dec h t) as [->|]; [|exact R1].
+              cbv beta in R1. rewrite Hpc in R1. discriminate R1.
+           ++ destruct U9 as [A B]. split; [|exact B]. rewrite D. destruct (Z.eq_dec d t) as [->|]; [|exact A].
+              cbv beta in A. rewrite Hpc in A. cproj_in A. congruence.
+        -- intros X. destruct (U11 X) as [A B]. split; [exact A|]. intros Hs. destruct (B Hs) as [B1 B2]. split; [exact B1|].
+           intros Y. destruct (B2 Y) as [d Hd]. exists d. rewrite D. destruct (Z.eq_dec d t) as [->|]; [|exact Hd].
+           rewrite Hpc in Hd. discriminate Hd.
+Qed.
+
+Lemma step_G_wake c w : pcs s t = G_wake c w -> gstep s t e = Some s' -> Inv s'.
+Proof.
+  start Hpc. gett Hpc. cproj_in T3.
+  apply andb_true_iff in T3 as [T3 Tw2]. apply andb_true_iff in T3 as [Tc Tw1].
+  bd Hts. ret_inv Hts. ba Ha.
+  destruct (cls_cont_pc c w Tc) as [Kc Kw].
+  inv_cc.
+  match goal with |- InvP (CC (set_pc ?S1 _ _)) _ => pose proof (CC_after S1 (cont_pc c) eq_refl) as D end.
+  split.
+  - apply (ginv_frame (CC s) _ s); try (intros y; rewrite D; destruct (Z.eq_dec y t) as [->|]; [rewrite Kc; unfold CC; rewrite Hpc; reflexivity|reflexivity]);
+      sproj; try reflexivity; try apply G; try (intros; reflexivity).
+  - intros u. pose proof (T u) as Tu. unfold CC in Tu. destruct (Z.eq_dec u t) as [->|Ne].
+    + clear Tu. constructor; rewrite ?CC_set_pc_same, ?Kc; unfold item0; cproj; sproj; try discriminate; try (intros; discriminate); auto.
+      * intros X. destruct (T8 X) as (A & B & C1). split; [exact A|]. split; [exact B|].
+        destruct (Z.eq_dec t w) as [->|Ntw]; [rewrite upd_same; destruct (slp s w); cbn; congruence|rewrite upd_other by exact Ntw; exact C1].
+      * intros X. apply (waitinv_frame (CC s) _ s); sproj; auto; try (apply T9; exact X);
+          (intros y; rewrite D; destruct (Z.eq_dec y t) as [->|]; [rewrite Kc; unfold CC; rewrite Hpc; reflexivity|reflexivity]).
+      * intros X. destruct (T10 X) as [A B]. split; [exact A|].
+        destruct (Z.eq_dec t w) as [->|Ntw]; [rewrite upd_same; destruct (slp s w); cbn; congruence|rewrite upd_other by exact Ntw; exact B].
+      * intros X. exfalso. destruct c; cproj_in X; discriminate X.
+      * intros X. exfalso. destruct c; cproj_in X; discriminate X.
+    + assert (Cu : CC (set_pc (set_slp s (upd (slp s) w (wake_one (slp s w)))) t (cont_pc c)) u = cls (pcs s u)).
+      { rewrite D. destruct (Z.eq_dec u t); [contradiction|reflexivity]. }
+      destruct Tu as [U1 U2 U3 U4 U5 U6 U7 U8 U9 U10 U11 U12 U13 U14 U15 U16].
+      assert (Sl : upd (slp s) w (wake_one (slp s w)) u = slp s u \/ (u = w /\ upd (slp s) w (wake_one (slp s w)) u <> Sleeping)).
+      { destruct (Z.eq_dec u w) as [->|Nuw]; [right; split; [reflexivity|]; rewrite upd_same; destruct (slp s w); cbn; congruence|left; apply upd_other; exact Nuw]. }
+      constructor; rewrite ?Cu; unfold item0; sproj; auto.
+      * intros X. destruct (U8 X) as (A & B & C1). split; [exact A|]. split; [exact B|]. destruct Sl as [Sl|[_ Sl]]; [rewrite Sl; exact C1|exact Sl].
+      * intros X. apply (waitinv_frame (CC s) _ s); sproj; auto;
+          (intros y; rewrite D; destruct (Z.eq_dec y t) as [->|]; [rewrite Kc; unfold CC; rewrite Hpc; reflexivity|reflexivity]).
+      * intros X. destruct (U10 X) as [A B]. split; [exact A|]. destruct Sl as [Sl|[_ Sl]]; [rewrite Sl; exact B|exact Sl].
+      * intros X. destruct (U11 X) as [A B]. split; [exact A|]. intros Hs. destruct Sl as [Sl|[_ Sl]]; [|contradiction].
+        rewrite Sl in Hs. destruct (B Hs) as [B1 B2]. split; [exact B1|]. intros Y. destruct (B2 Y) as [d Hd]. exists d.
+        rewrite D. destruct (Z.eq_dec d t) as [->|]; [|exact Hd]. exfalso. rewrite Hpc in Hd. cproj_in Hd. injection Hd as Hd.
+        subst w. rewrite upd_same in Sl. rewrite Hs in Sl. cbn in Sl. discriminate Sl.
+      * intros X. destruct (U12 X) as (A & B & C1). split; [exact A|]. split; [exact B|]. destruct Sl as [Sl|[_ Sl]]; [rewrite Sl; exact C1|exact Sl].
+Qed.
+
+Lemma own_enq : Z.land OWN ENQ = ENQ.
+Proof. reflexivity. Qed.
+
+Lemma step_W_dec o n : pcs s t = W_dec o n -> gstep s t e = Some s' -> Inv s'.
+Proof.
+  start Hpc. gett Hpc. cproj_in T1. specialize (T1 eq_refl). cproj_in T3. apply Z.eqb_eq in T3. subst o.
+  bd Hts.
+  - (* a sync waiter: hand the lock over *) ret_inv Hts.
+    apply acts_cons in Ha as (sx & HX & Ha). cbn [apply_act] in HX. destruct (cur s) as [c0|] eqn:Cn; [|discriminate HX]. bd HX. injection HX as <-.
+    match goal with H : eqb (is_sync_kind (e_kind c0)) true = true |- _ => apply eqb_prop in H; rename H into Ks end.
+    ba Ha. change 2147483648 with ENQ. inv_cc.
+    pose proof (CC_after s (D_body CWorker ENQ (ea e)) eq_refl) as D.
+    destruct (g_cur _ _ G c0 Cn) as (h & H1 & H2 & H3). assert (h = t) by congruence. subst h.
+    unfold cur_ok, CC in H3. rewrite Hpc in H3. cproj_in H3. rewrite Ks in H3. cbn [orb] in H3.
+    assert (Kw : is_waiter_kind (e_kind c0) = true) by (destruct (e_kind c0); try discriminate Ks; reflexivity).
+    rewrite Kw in H3. destruct H3 as [_ [Vw Pw]].
+    split.
+    + destruct G as [G1 G2 G3 G4 G5 G6 G7 G8]. constructor; sproj; auto.
+      * intros h Hh. destruct (G3 h Hh) as [V X]. split; [exact V|]. rewrite D. destruct (Z.eq_dec h t) as [->|]; [|exact X]. left. reflexivity.
+      * intros x Hx. specialize (G4 x Hx). rewrite D. destruct (Z.eq_dec x t) as [->|]; [|exact G4]. unfold CC in G4. rewrite Hpc in G4. discriminate G4.
+      * intros c1 Hc1. assert (c1 = c0) by congruence. subst c1. exists t. split; [exact T1|]. rewrite CC_set_pc_same. split; [reflexivity|].
+        unfold cur_ok. rewrite CC_set_pc_same. cproj. rewrite Kw. split; [reflexivity|]. split; [exact Vw|exact Pw].
+    + intros u. destruct (Z.eq_dec u t) as [->|Ne].
+      * selfrec Hpc. intros _. congruence.
+      * apply (tinv_frame (CC s) _ s); sproj; auto;
+          try (intros y; rewrite D; destruct (Z.eq_dec y t) as [->|]; [unfold CC; rewrite Hpc; reflexivity|reflexivity]);
+          try tauto; try apply T.
+        rewrite D. destruct (Z.eq_dec u t); [contradiction|reflexivity].
+  - (* anything else: run it *) ret_inv Hts.
+    apply acts_cons in Ha as (sx & HX & Ha). cbn [apply_act] in HX. destruct (cur s) as [c0|] eqn:Cn; [|discriminate HX]. bd HX. injection HX as <-.
+    match goal with H : eqb (is_sync_kind (e_kind c0)) false = true |- _ => apply eqb_prop in H; rename H into Ks end.
+    apply acts_cons in Ha as (sx & HX & Ha). apply acts_nil in Ha. subst sx. cbn [apply_act] in HX. rewrite Cn in HX. bd HX. injection HX as <-.
+    match goal with H : (e_own c0 =? eb e) = true |- _ => apply Z.eqb_eq in H; rename H into Ho end.
+    set (w := eb e) in *.
+    destruct (g_cur _ _ G c0 Cn) as (h & H1 & H2 & H3). assert (h = t) by congruence. subst h.
+    unfold cur_ok, CC in H3. rewrite Hpc in H3. cproj_in H3. rewrite Ks, Ho in H3. cbn [orb] in H3. destruct H3 as [_ H3].
+    assert (Rn : running s = None) by (apply running_none; [exact T1|rewrite Hpc; reflexivity]). rewrite Rn.
+    rewrite (proj1 (g_flags _ _ G)). cbn [orb].
+    assert (Kw : w <> 0 -> is_waiter_kind (e_kind c0) = true /\ valid_tid w /\ ph s w = PhPopR t).
+    { intros Nw. destruct (is_waiter_kind (e_kind c0)); [split; [reflexivity|exact H3]|contradiction]. }
+    assert (Wr : 0 <= w <= OWNER_MASK).
+    { destruct (is_waiter_kind (e_kind c0)); [destruct H3 as [V _]; unfold valid_tid in V; lia|rewrite H3; unfold OWNER_MASK, DLOCK_OWNER_MASK; lia]. }
+    destruct (Z.eqb_spec w 0) as [W0|Nw].
+    + (* an asynchronous item *)
+      inv_cc. match goal with |- InvP (CC (set_pc ?S1 _ _)) _ => pose proof (CC_after S1 (W_incall OWN n w) eq_refl) as D end.
+      split.
+      * destruct G as [G1 G2 G3 G4 G5 G6 G7 G8]. constructor; sproj; auto.
+        -- intros h Hh. destruct (G3 h Hh) as [V X]. split; [exact V|]. rewrite D. destruct (Z.eq_dec h t) as [->|]; [|exact X]. left. reflexivity.
+        -- intros x Hx. injection Hx as <-. rewrite CC_set_pc_same. reflexivity.
+        -- split; [reflexivity|apply G5].
+        -- intros c1 Hc1. discriminate Hc1.
+      * intros u. pose proof (T u) as Tu. destruct (Z.eq_dec u t) as [->|Ne].
+        -- rewrite W0. selfrec Hpc.
+        -- assert (Cu : CC (set_pc (set_running (set_cur s None) (Some t) false) t (W_incall OWN n w)) u = CC s u).
+           { rewrite D. destruct (Z.eq_dec u t); [contradiction|reflexivity]. }
+           destruct Tu as [U1 U2 U3 U4 U5 U6 U7 U8 U9 U10 U11 U12 U13 U14 U15 U16].
+           constructor; rewrite ?Cu; unfold item0; sproj; auto.
+           ++ intros X. specialize (U4 X). congruence.
+           ++ intros X. exfalso. pose proof (cur_hold _ X) as Y. specialize (U1 Y). congruence.
+           ++ intros X. specialize (U9 X). unfold waitinv, handed_or_done, item0 in *. sproj. destruct (ph s u) as [| |h|h|d|]; auto.
+              ** exfalso. destruct U9 as (_ & _ & c1 & Y & Z0 & K). assert (c1 = c0) by congruence. subst c1.
+                 rewrite K in H3. destruct H3 as [V _]. unfold valid_tid in V. rewrite W0 in V. lia.
+              ** exfalso. destruct U9 as (A & B & [(_ & c1 & Y & Z0 & K)|(R1 & _)]).
+                 --- assert (c1 = c0) by congruence. subst c1. rewrite K in H3. destruct H3 as [V _]. unfold valid_tid in V. rewrite W0 in V. lia.
+                 --- assert (h = t) by congruence. subst h. unfold CC in R1. rewrite Hpc in R1. discriminate R1.
+              ** destruct U9 as [A B]. split; [|exact B]. rewrite D. destruct (Z.eq_dec d t) as [->|]; [|exact A]. unfold CC in A. rewrite Hpc in A. discriminate A.
+           ++ intros X. destruct (U11 X) as [A B]. split; [exact A|]. intros Hs. destruct (B Hs) as [B1 B2]. split; [exact B1|].
+              intros Y. destruct (B2 Y) as [d Hd]. exists d. rewrite D. destruct (Z.eq_dec d t) as [->|]; [|exact Hd]. unfold CC in Hd. rewrite Hpc in Hd. discriminate Hd.
+    + (* the item of an async_and_wait waiter *)
+      destruct (Kw Nw) as (K & Vw & Pw).
+      assert (Ntw : t <> w).
+      { intros Etw. pose proof (t_nowait _ _ _ (T t)) as Y. unfold CC in Y. rewrite Hpc in Y. destruct (Y eq_refl) as (A & _). rewrite Etw in A. congruence. }
+      pose proof (T w) as Tw. unfold CC in Tw. destruct Tw as [W1 W2 W3 W4 W5 W6 W7 W8 W9 W10 W11 W12 W13 W14 W15 W16].
+      assert (Ww : c_wst (cls (pcs s w)) <> WNone) by (intros X; destruct (W8 X) as (A & _); congruence).
+      assert (Iw : item0 s w).
+      { specialize (W9 Ww). unfold waitinv in W9. rewrite Pw in W9. destruct W9 as (_ & _ & [(I0 & _)|(R1 & _)]); [exact I0|].
+        rewrite Hpc in R1. discriminate R1. }
+      destruct Iw as (I1 & I2 & I3).
+      inv_cc. match goal with |- InvP (CC (set_pc ?S1 _ _)) _ => pose proof (CC_after S1 (W_incall OWN n w) eq_refl) as D end.
+      split.
+      * destruct G as [G1 G2 G3 G4 G5 G6 G7 G8]. constructor; sproj; auto.
+        -- intros h Hh. destruct (G3 h Hh) as [V X]. split; [exact V|]. rewrite D. destruct (Z.eq_dec h t) as [->|]; [|exact X]. left. reflexivity.
+        -- intros x Hx. injection Hx as <-. rewrite CC_set_pc_same. reflexivity.
+        -- split; [reflexivity|apply G5].
+        -- intros c1 Hc1. discriminate Hc1.
+      * intros u. pose proof (T u) as Tu. destruct (Z.eq_dec u t) as [->|Ne].
+        -- selfrec Hpc.
+           ++ apply andb_true_iff. split; [apply andb_true_iff; split; [reflexivity|apply Z.leb_le; lia]|apply Z.leb_le; lia].
+           ++ intros x Hx Nx. destruct (w =? 0); [discriminate Hx|]. injection Hx as <-. exact Pw.
+        -- assert (Cu : forall S1, pcs S1 = pcs s -> CC (set_pc S1 t (W_incall OWN n w)) u = CC s u).
+           { intros S1 E. rewrite CC_after by exact E. destruct (Z.eq_dec u t); [contradiction|reflexivity]. }
+           destruct Tu as [U1 U2 U3 U4 U5 U6 U7 U8 U9 U10 U11 U12 U13 U14 U15 U16].
+           destruct (Z.eq_dec u w) as [->|Nuw].
+           ++ constructor; rewrite ?Cu by reflexivity; unfold item0; sproj; rewrite ?upd_same; auto.
+              ** intros X. specialize (U4 X). congruence.
+              ** intros X. exfalso. pose proof (cur_hold _ X) as Y. specialize (U1 Y). congruence.
+              ** intros _. unfold waitinv, handed_or_done, item0. sproj. rewrite Pw, upd_same.
+                 split; [exact T1|]. split; [exact Ntw|]. right. rewrite CC_set_pc_same. cproj. rewrite I2, upd_same.
+                 destruct (Z.eqb_spec w 0); [contradiction|]. auto.
+              ** intros X. destruct (U11 X) as [A B]. split; [exact A|]. intros Hs. destruct (B Hs) as [B1 B2]. split; [exact B1|].
+                 intros Y. congruence.
+              ** intros _ Y. exfalso. apply Ww. exact Y.
+              ** intros X. exfalso. unfold CC in X. cproj_in Ww. cproj_in X. rewrite (wait_cst _ Ww) in X. discriminate X.
+              ** intros X. exfalso. unfold CC in X. cproj_in Ww. cproj_in X. rewrite (wait_cst _ Ww) in X. discriminate X.
+           ++ constructor; rewrite ?Cu by reflexivity; unfold item0; sproj; rewrite ?upd_other by exact Nuw; auto.
+              ** intros X. specialize (U4 X). congruence.
+              ** intros X. exfalso. pose proof (cur_hold _ X) as Y. specialize (U1 Y). congruence.
+              ** intros X. specialize (U9 X). unfold waitinv, handed_or_done, item0 in *. sproj. rewrite ?upd_other by exact Nuw.
+                 destruct (ph s u) as [| |h|h|d|]; auto.
+                 --- exfalso. destruct U9 as (_ & _ & c1 & Y & Z0 & _). assert (c1 = c0) by congruence. subst c1. congruence.
+                 --- exfalso. destruct U9 as (A & B & [(_ & c1 & Y & Z0 & _)|(R1 & _)]).
+                     +++ assert (c1 = c0) by congruence. subst c1. congruence.
+                     +++ assert (h = t) by congruence. subst h. unfold CC in R1. rewrite Hpc in R1. discriminate R1.
+                 --- destruct U9 as [A B]. split; [|exact B]. rewrite D. destruct (Z.eq_dec d t) as [->|]; [|exact A]. unfold CC in A. rewrite Hpc in A. discriminate A.
+              ** intros X. destruct (U11 X) as [A B]. split; [exact A|]. intros Hs. destruct (B Hs) as [B1 B2]. split; [exact B1|].
+                 intros Y. destruct (B2 Y) as [d Hd]. exists d. rewrite D. destruct (Z.eq_dec d t) as [->|]; [|exact Hd]. unfold CC in Hd. rewrite Hpc in Hd. discriminate Hd.
+Qed.
+
+Lemma step_W_incall o n w : pcs s t = W_incall o n w -> gstep s t e = Some s' -> Inv s'.
+Proof.
+  start Hpc. gett Hpc. cproj_in T1. specialize (T1 eq_refl). cproj_in T3. cproj_in T4. specialize (T4 eq_refl).
+  apply andb_true_iff in T3 as [T3 Tw2]. apply andb_true_iff in T3 as [To Tw1]. apply Z.eqb_eq in To. subst o.
+  cproj_in T6. cproj_in T8. destruct (T8 eq_refl) as (P0 & E0 & S0).
+  bd Hts. ret_inv Hts. ba Ha.
+  destruct (cls_cont_pc (CDrain OWN n) w eq_refl) as [Kc _]. cbn [cont_pc] in *.
+  set (q := if n =? 0 then W_tail OWN else W_state OWN) in *. clearbody q.
+  destruct (Z.eqb_spec w 0) as [W0|Nw].
+  - (* an asynchronous item finished *)
+    inv_cc. match goal with |- InvP (CC (set_pc ?S1 _ _)) _ => pose proof (CC_after S1 q eq_refl) as D end.
+    split.
+    + destruct G as [G1 G2 G3 G4 G5 G6 G7 G8]. constructor; sproj; auto.
+      * intros h Hh. destruct (G3 h Hh) as [V X]. split; [exact V|]. rewrite D. destruct (Z.eq_dec h t) as [->|]; [|exact X]. left. rewrite Kc. reflexivity.
+      * intros x Hx. discriminate Hx.
+      * intros c1 Hc1. destruct (G6 c1 Hc1) as (h & H1 & H2 & _). exfalso. assert (h = t) by congruence. subst h. unfold CC in H2. rewrite Hpc in H2. discriminate H2.
+    + intros u. destruct (Z.eq_dec u t) as [->|Ne].
+      * constructor; rewrite ?CC_set_pc_same, ?Kc; unfold item0; cproj; sproj; try discriminate; try (intros; discriminate);
+          try (let H := fresh in intros H; exfalso; apply H; reflexivity); try (let H := fresh in intros _ H; exfalso; apply H; reflexivity); auto.
+      * apply (tinv_frame (CC s) _ s); sproj; auto;
+          try (intros y; rewrite D; destruct (Z.eq_dec y t) as [->|]; [rewrite Kc; unfold CC; rewrite Hpc; cproj; rewrite ?W0; try reflexivity|reflexivity]);
+          try tauto; try apply T.
+        -- rewrite D. destruct (Z.eq_dec u t); [contradiction|reflexivity].
+        -- intros X. congruence.
+  - (* the item of waiter w finished on this thread: now signal w *)
+    specialize (T6 w eq_refl Nw).
+    assert (Ntw : t <> w) by (intros Etw; rewrite <- Etw in T6; congruence).
+    pose proof (T w) as Tw. unfold CC in Tw. destruct Tw as [W1 W2 W3 W4 W5 W6 W7 W8 W9 W10 W11 W12 W13 W14 W15 W16].
+    assert (Ww : c_wst (cls (pcs s w)) <> WNone) by (intros X; destruct (W8 X) as (A & _); congruence).
+    assert (Iw : ist s w = IRun /\ runs s w = 1 /\ remote s w = false).
+    { specialize (W9 Ww). unfold waitinv in W9. rewrite T6 in W9. destruct W9 as (_ & _ & [(_ & c1 & X & _)|(_ & R2)]); [|exact R2].
+      exfalso. destruct (g_cur _ _ G c1 X) as (h & H1 & H2 & _). assert (h = t) by congruence. subst h. unfold CC in H2. rewrite Hpc in H2. discriminate H2. }
+    destruct Iw as (I1 & I2 & I3).
+    inv_cc. match goal with |- InvP (CC (set_pc ?S1 _ _)) _ => pose proof (CC_after S1 (G_sig (CDrain OWN n) w) eq_refl) as D end.
+    assert (PhO : forall x, x <> w -> upd (ph s) w (PhSig t) x = ph s x) by (intros x Nx; apply upd_other; exact Nx).
+    split.
+    + destruct G as [G1 G2 G3 G4 G5 G6 G7 G8]. constructor; sproj; auto.
+      * intros h Hh. assert (h = t) by congruence. subst h. split; [exact Vt|]. left. rewrite CC_set_pc_same. reflexivity.
+      * intros x Hx. discriminate Hx.
+      * intros c1 Hc1. destruct (G6 c1 Hc1) as (h & H1 & H2 & _). exfalso. assert (h = t) by congruence. subst h. unfold CC in H2. rewrite Hpc in H2. discriminate H2.
+      * rewrite Forall_forall in *. intros x Hx. specialize (G7 x Hx). unfold entry_ok in *. sproj.
+        destruct (is_waiter_kind (e_kind x)); [|exact G7]. destruct G7 as [V P]. split; [exact V|].
+        rewrite PhO; [exact P|]. intros Ex. rewrite Ex in P. congruence.
+    + intros u. pose proof (T u) as Tu. destruct (Z.eq_dec u t) as [->|Ne].
+      * constructor; rewrite ?CC_set_pc_same; unfold item0; cproj; sproj; rewrite ?(PhO t Ntw); try discriminate; try (intros; discriminate);
+          try (let H := fresh in intros H; exfalso; apply H; reflexivity); try (let H := fresh in intros _ H; exfalso; apply H; reflexivity); auto.
+        -- rewrite Tw2. apply andb_true_iff. split; [apply andb_true_iff; split; [reflexivity|]|reflexivity].
+           apply Z.ltb_lt. apply Z.leb_le in Tw1. lia.
+        -- intros x Hx. injection Hx as <-. rewrite upd_same. reflexivity.
+      * assert (Cu : forall S1, pcs S1 = pcs s -> CC (set_pc S1 t (G_sig (CDrain OWN n) w)) u = CC s u).
+        { intros S1 E. rewrite CC_after by exact E. destruct (Z.eq_dec u t); [contradiction|reflexivity]. }
+        destruct Tu as [U1 U2 U3 U4 U5 U6 U7 U8 U9 U10 U11 U12 U13 U14 U15 U16].
+        assert (SigX : forall x, c_sig (CC s u) = Some x -> x <> w).
+        { intros x Hx Ex. subst x. specialize (U5 _ Hx). rewrite T6 in U5. congruence. }
+        assert (RunX : forall x, c_run (CC s u) = Some x -> x <> 0 -> x <> w).
+        { intros x Hx Nx Ex. subst x. specialize (U6 _ Hx Nx). rewrite T6 in U6. congruence. }
+        destruct (Z.eq_dec u w) as [->|Nuw].
+        -- constructor; rewrite ?Cu by reflexivity; unfold item0; sproj; rewrite ?upd_same; auto.
+           ++ intros X. specialize (U4 X). congruence.
+           ++ intros x Hx. rewrite PhO; [auto|]. apply SigX. exact Hx.
+           ++ intros x Hx Nx. rewrite PhO; [auto|]. apply RunX; assumption.
+           ++ intros X. exfalso. apply Ww. exact X.
+           ++ intros _. unfold waitinv, handed_or_done, item0. sproj. rewrite !upd_same.
+              split; [rewrite CC_set_pc_same; reflexivity|]. right. auto.
+           ++ intros X. destruct (U10 X) as [A B]. rewrite T6 in A. cbn [is_sigd] in A |- *. split; [exact A|exact B].
+           ++ intros X. destruct (U11 X) as [A B]. rewrite T6 in A. cbn [is_sigd] in A |- *. split; [exact A|].
+              intros Hs. destruct (B Hs) as [B1 B2]. split; [exact B1|]. intros Y. discriminate Y.
+           ++ intros X. destruct (U12 X) as (A & _). congruence.
+           ++ intros _ Y. exfalso. apply Ww. exact Y.
+           ++ intros X. exfalso. unfold CC in X. cproj_in Ww. cproj_in X. rewrite (wait_cst _ Ww) in X. discriminate X.
+           ++ intros X. exfalso. unfold CC in X. cproj_in Ww. cproj_in X. rewrite (wait_cst _ Ww) in X. discriminate X.
+        -- constructor; rewrite ?Cu by reflexivity; unfold item0; sproj; rewrite ?(PhO u Nuw), ?upd_other by exact Nuw; auto.
+           ++ intros X. specialize (U4 X). congruence.
+           ++ intros x Hx. rewrite PhO; [auto|]. apply SigX. exact Hx.
+           ++ intros x Hx Nx. rewrite PhO; [auto|]. apply RunX; assumption.
+           ++ intros X. specialize (U9 X). unfold waitinv, handed_or_done, item0 in *. sproj. rewrite (PhO u Nuw), ?upd_other by exact Nuw.
+              destruct (ph s u) as [| |h|h|d|]; auto.
+              ** destruct U9 as (A & B & [Y|(R1 & R2)]); [split; [exact A|]; split; [exact B|]; left; exact Y|].
+                 exfalso. assert (h = t) by congruence. subst h. unfold CC in R1. rewrite Hpc in R1. cproj_in R1.
+                 destruct (Z.eqb_spec w 0); [contradiction|]. congruence.
+              ** destruct U9 as [A B]. split; [|exact B]. rewrite D. destruct (Z.eq_dec d t) as [->|]; [|exact A].
+                 unfold CC in A. rewrite Hpc in A. discriminate A.
+           ++ intros X. destruct (U11 X) as [A B]. split; [exact A|]. intros Hs. destruct (B Hs) as [B1 B2]. split; [exact B1|].
+              intros Y. destruct (B2 Y) as [d Hd]. exists d. rewrite D. destruct (Z.eq_dec d t) as [->|]; [|exact Hd]. unfold CC in Hd. rewrite Hpc in Hd. discriminate Hd.
+Qed.
+End Steps.
+
+(* ------------------------------------------------------------------ every reachable state satisfies the invariant *)
+Lemma step_preserves s t e s' : valid_tid t -> Inv s -> gstep s t e = Some s' -> Inv s'.
+Proof.
+  intros Vt HI Hs. destruct (pcs s t) eqn:Hpc;
+  first [ eapply step_Idle; eassumption | eapply step_A_xchg; eassumption | eapply step_A_head; eassumption
+        | eapply step_A_link; eassumption | eapply step_A_probe; eassumption | eapply step_A_wload; eassumption
+        | eapply step_A_wbody; eassumption | eapply step_A_root; eassumption | eapply step_A_ret; eassumption
+        | eapply step_S_aaw; eassumption | eapply step_S_fload; eassumption | eapply step_S_fbody; eassumption
+        | eapply step_S_wprep; eassumption | eapply step_S_xchg; eassumption | eapply step_S_head; eassumption
+        | eapply step_S_link; eassumption | eapply step_S_sw; eassumption | eapply step_S_pwload; eassumption
+        | eapply step_S_pwbody; eassumption | eapply step_S_sub; eassumption | eapply step_S_eload; eassumption
+        | eapply step_S_futex; eassumption | eapply step_S_sleep; eassumption | eapply step_S_woken; eassumption
+        | eapply step_S_fake; eassumption | eapply step_S_call; eassumption | eapply step_S_incall; eassumption
+        | eapply step_S_tail; eassumption | eapply step_S_uload; eassumption | eapply step_S_ubody; eassumption
+        | eapply step_S_ret; eassumption | eapply step_B_tail; eassumption | eapply step_B_susp; eassumption
+        | eapply step_B_head; eassumption | eapply step_B_dec; eassumption | eapply step_C_load; eassumption
+        | eapply step_C_body; eassumption | eapply step_C_xor; eassumption | eapply step_C_root; eassumption
+        | eapply step_P_cas; eassumption | eapply step_P_store; eassumption | eapply step_D_load; eassumption
+        | eapply step_D_body; eassumption | eapply step_G_sig; eassumption | eapply step_G_wake; eassumption
+        | eapply step_W_lbody; eassumption | eapply step_W_tail; eassumption | eapply step_W_head; eassumption
+        | eapply step_W_state; eassumption | eapply step_W_pop; eassumption | eapply step_W_dec; eassumption
+        | eapply step_W_incall; eassumption | eapply step_W_uload; eassumption | eapply step_W_ubody; eassumption
+        | eapply step_W_xor; eassumption ].
+Qed.
+
+Theorem inv_reach s : reach s -> Inv s.
+Proof.
+  apply invariant_lift.
+  - intros ? ->. apply Inv_init.
+  - intros s0 [t e] s1 HI [Vt Hs]. cbn in *. eapply step_preserves; eauto.
+Qed.
+
+Lemma reach_gstep s t e s' : reach s -> valid_tid t -> gstep s t e = Some s' -> reach s'.
+Proof. intros R Vt Hs. apply (reach_step _ _ s (t, e) s' R). split; assumption. Qed.
+
+(* the global model's thread moves are exactly moves of the per-thread automaton used for trace conformance *)
+Lemma gstep_tstep s t e s' : gstep s t e = Some s' -> exists acts, tstep t (pcs s t) e = Some (pcs s' t, acts).
+Proof.
+  intros H. apply gstep_unfold in H as (p' & acts & s1 & Hts & Ha & ->). exists acts. rewrite Hts. sproj.
+  rewrite upd_same. reflexivity.
+Qed.
+
+(* ------------------------------------------------------------------ consequences *)
+Lemma wakeof_inv p w : wakeof p = Some w -> exists c, p = G_wake c w.
+Proof. destruct p; cbn; intros H; try discriminate H. injection H as <-. eauto. Qed.
+Lemma sigof_inv p w : sigof p = Some w -> exists c, p = G_sig c w.
+Proof. destruct p; cbn; intros H; try discriminate H. injection H as <-. eauto. Qed.
+Lemma runof_inv p w : runof p = Some w -> exists o n, p = W_incall o n w.
+Proof. destruct p; cbn; intros H; try discriminate H. destruct (w0 =? 0); [discriminate H|]. injection H as <-. eauto. Qed.
+Lemma sleeppc_inv p : sleeppc p = true -> exists k, p = S_sleep k.
+Proof. destruct p; cbn; intros H; try discriminate H. eauto. Qed.
+
+(* 1. a synchronous call returns only after its work item has finished *)
+Lemma no_early_return s : reach s -> early_ret s = false.
+Proof. intros R. apply (g_flags _ _ (proj1 (inv_reach s R))). Qed.
+
+Lemma at_return_finished s t : reach s -> pcs s t = S_ret -> ist s t = IFin /\ runs s t = 1.
+Proof.
+  intros R Hpc. pose proof (t_after _ _ _ (proj2 (inv_reach s R) t)) as H. cbv beta in H. rewrite Hpc in H.
+  destruct (H eq_refl) as (A & B & _). auto.
+Qed.
+
+Lemma return_step_after_finish s t e s' :
+  reach s -> valid_tid t -> gstep s t e = Some s' -> ek e = DVU_RET -> cst (pcs s t) <> CNone ->
+  ist s t = IFin /\ runs s t = 1.
+Proof.
+  intros R Vt Hs Hk Hc. pose proof (inv_reach s R) as [G T].
+  destruct (T t) as [T1 T2 T3 T4 T5 T6 T7 T8 T9 T10 T11 T12 T13 T14 T15 T16]. cbv beta in *.
+  apply gstep_unfold in Hs as (p' & acts & s1 & Hts & Ha & ->).
+  assert (Q : forall k o f, k <> DVU_RET -> is_q e k o f = false).
+  { intros k o f N. unfold is_q. rewrite Hk. destruct (Z.eqb_spec DVU_RET k); [congruence|reflexivity]. }
+  assert (Qe : forall k o w, k <> DVU_RET -> is_ev e k o w = false).
+  { intros k o w N. unfold is_ev. rewrite Hk. destruct (Z.eqb_spec DVU_RET k); [congruence|reflexivity]. }
+  assert (Qn : forall k w, k <> DVU_RET -> is_note e k w = false).
+  { intros k w N. unfold is_note. rewrite Hk. destruct (Z.eqb_spec DVU_RET k); [congruence|reflexivity]. }
+  assert (Qt : forall v, is_tau e v = false) by (intros v; unfold is_tau; rewrite Hk; reflexivity).
+  assert (Qc : (ek e =? DVU_CALL) = false) by (rewrite Hk; reflexivity).
+  assert (Qb : (ek e =? DVU_CALLOUT_BEGIN) = false) by (rewrite Hk; reflexivity).
+  assert (Qd : (ek e =? DVU_CALLOUT_END) = false) by (rewrite Hk; reflexivity).
+  destruct (pcs s t) eqn:Hpc; cbn [tstep] in Hts; cbn [cst cont_cst pk_cont] in Hc; try (exfalso; apply Hc; reflexivity);
+    rewrite ?Qt, ?Qc, ?Qb, ?Qd, ?Q, ?Qe, ?Qn in Hts by discriminate; cbn [andb orb] in Hts;
+    repeat match type of Hts with (match ?b with _ => _ end) = Some _ => destruct b; try discriminate Hts end;
+    rewrite ?Qt, ?Qc, ?Qb, ?Qd, ?Q, ?Qe, ?Qn in Hts by discriminate; cbn [andb orb] in Hts; try discriminate Hts.
+  - (* S_woken KA: the drainer ran the item *)
+    cproj_in T9. cproj_in T12.
+    destruct (T12 eq_refl) as (Sg & _). assert (Wt : waitinv (fun x => cls (pcs s x)) s t) by (apply T9; discriminate).
+    unfold waitinv in Wt. rewrite Sg in Wt. ret_inv Hts.
+    apply acts_cons in Ha as (sx & HX & _). cbn [apply_act] in HX.
+    destruct (Bool.eqb (remote s t) true) eqn:Rm; [|discriminate HX]. apply eqb_prop in Rm.
+    destruct Wt as [[_ (_ & _ & X)]|(A & B & _)]; [congruence|auto].
+  - (* S_ret *)
+    cproj_in T15. destruct (T15 eq_refl) as (A & B & _). auto.
+Qed.
+
+(* 2. the item of a synchronous call is started at most once; when the call is over it has run exactly once; if the drainer
+      ran it, the caller never starts it *)
+Lemma runs_once s t : reach s -> cst (pcs s t) <> CNone ->
+  0 <= runs s t <= 1 /\
+  (cst (pcs s t) = CAfter -> runs s t = 1 /\ ist s t = IFin /\ remote s t = false) /\
+  (cst (pcs s t) = CIn -> runs s t = 1 /\ remote s t = false) /\
+  (remote s t = true -> runs s t = 1 /\ ist s t = IFin /\ cst (pcs s t) = CBefore /\ wst (pcs s t) <> WNone).
+Proof.
+  intros R Hc. pose proof (inv_reach s R) as [G T]. destruct (T t) as [T1 T2 T3 T4 T5 T6 T7 T8 T9 T10 T11 T12 T13 T14 T15 T16].
+  cbv beta in *. cproj_in T13. cproj_in T14. cproj_in T15. cproj_in T9.
+  assert (Wcase : wst (pcs s t) <> WNone ->
+            (runs s t = 0 /\ remote s t = false) \/ (runs s t = 1 /\ remote s t = false) \/
+            (runs s t = 1 /\ ist s t = IFin /\ remote s t = true)).
+  { intros W. specialize (T9 W). unfold waitinv, handed_or_done, item0 in T9. destruct (ph s t); try contradiction; intuition. }
+  destruct (cst (pcs s t)) eqn:C; [exfalso; apply Hc; reflexivity| | |].
+  - destruct (wst (pcs s t)) eqn:W.
+    + destruct (T13 eq_refl eq_refl) as (A & B & D). rewrite B, D.
+      split; [lia|]. split; [intros X; discriminate X|]. split; [intros X; discriminate X|]. intros X; discriminate X.
+    + destruct (Wcase ltac:(discriminate)) as [(A & B)|[(A & B)|(A & B & D)]]; rewrite A;
+        (split; [lia|]; split; [intros X; discriminate X|]; split; [intros X; discriminate X|]; intros X; try congruence);
+        repeat split; auto; discriminate.
+    + destruct (Wcase ltac:(discriminate)) as [(A & B)|[(A & B)|(A & B & D)]]; rewrite A;
+        (split; [lia|]; split; [intros X; discriminate X|]; split; [intros X; discriminate X|]; intros X; try congruence);
+        repeat split; auto; discriminate.
+    + destruct (Wcase ltac:(discriminate)) as [(A & B)|[(A & B)|(A & B & D)]]; rewrite A;
+        (split; [lia|]; split; [intros X; discriminate X|]; split; [intros X; discriminate X|]; intros X; try congruence);
+        repeat split; auto; discriminate.
+  - destruct (T14 eq_refl) as (A & B & D). rewrite B, D.
+    split; [lia|]. split; [intros X; discriminate X|]. split; [auto|]. intros X; discriminate X.
+  - destruct (T15 eq_refl) as (A & B & D). rewrite B, D.
+    split; [lia|]. split; [auto|]. split; [intros X; discriminate X|]. intros X; discriminate X.
+Qed.
+
+(* 3. whoever runs a work item of the lane owns the lane, and nobody else runs one *)
+Lemma handoff_exclusive s t : reach s -> incall (pcs s t) = true ->
+  holder s = Some t /\ Z.land (st s) OWNER_MASK = t /\ running s = Some t /\ overlap s = false /\
+  forall u, incall (pcs s u) = true -> u = t.
+Proof.
+  intros R Hi. pose proof (inv_reach s R) as [G T].
+  pose proof (t_hold _ _ _ (T t)) as H. cbv beta in H. cproj_in H. specialize (H (incall_hold _ Hi)).
+  pose proof (t_incall _ _ _ (T t)) as Hr. cbv beta in Hr. cproj_in Hr. specialize (Hr Hi).
+  split; [exact H|]. split.
+  - pose proof (g_word _ _ G) as Wd. rewrite H in Wd. apply (wordinv_owner _ _ _ Wd).
+  - split; [exact Hr|]. split; [apply (g_flags _ _ G)|].
+    intros u Hu. pose proof (t_incall _ _ _ (T u)) as Hru. cbv beta in Hru. cproj_in Hru. specialize (Hru Hu). congruence.
+Qed.
+
+(* the waiter that runs its item after the hand-off: at that moment dq_state names it as the owner *)
+Lemma waiter_runs_as_owner s t k : reach s -> pcs s t = S_incall k false ->
+  holder s = Some t /\ Z.land (st s) OWNER_MASK = t /\ forall u, incall (pcs s u) = true -> u = t.
+Proof.
+  intros R Hpc. destruct (handoff_exclusive s t R) as (A & B & _ & _ & D); [rewrite Hpc; reflexivity|]. auto.
+Qed.
+
+(* 4. no lost wake-up on the thread event: a thread asleep in futex_wait on its event is in the wait loop, and if its item
+      has been handed off / run, the signal or the futex_wake is pending at a definite program point of another thread *)
+Lemma no_lost_wake s t : reach s -> slp s t = Sleeping ->
+  (exists k, pcs s t = S_sleep k) /\ ev s t = (if is_sigd (ph s t) then 0 else MAXV) /\
+  match ph s t with
+  | PhNone => False
+  | PhQueued => True
+  | PhPopH h => holder s = Some h /\ exists e, cur s = Some e /\ e_own e = t
+  | PhPopR h => holder s = Some h /\ ((exists e, cur s = Some e /\ e_own e = t) \/ exists o n, pcs s h = W_incall o n t)
+  | PhSig d => exists c, pcs s d = G_sig c t
+  | PhSigd => exists d c, pcs s d = G_wake c t
+  end.
+Proof.
+  intros R Hs. pose proof (inv_reach s R) as [G T]. destruct (T t) as [T1 T2 T3 T4 T5 T6 T7 T8 T9 T10 T11 T12 T13 T14 T15 T16].
+  cbv beta in *. cproj_in T8. cproj_in T9. cproj_in T10. cproj_in T11. cproj_in T12.
+  destruct (wst (pcs s t)) eqn:W.
+  - destruct (T8 eq_refl) as (_ & _ & X). contradiction.
+  - destruct (T10 eq_refl) as (_ & X). contradiction.
+  - destruct (T11 eq_refl) as (A & B). destruct (B Hs) as (B1 & B2). split; [apply sleeppc_inv; exact B1|]. split; [exact A|].
+    assert (Wt : waitinv (fun x => cls (pcs s x)) s t) by (apply T9; discriminate). unfold waitinv in Wt.
+    destruct (ph s t) as [| |h|h|d|]; auto.
+    + destruct Wt as (_ & A1 & e & A2 & A3 & _). split; [exact A1|]. eauto.
+    + destruct Wt as (A1 & _ & [(_ & e & A2 & A3 & _)|(A2 & _)]); split; auto; [left; eauto|]. right. cproj_in A2. apply runof_inv in A2. exact A2.
+    + destruct Wt as (A1 & _). cproj_in A1. apply sigof_inv. exact A1.
+    + destruct (B2 eq_refl) as (d & Hd). exists d. cproj_in Hd. apply wakeof_inv. exact Hd.
+  - destruct (T12 eq_refl) as (_ & _ & X). contradiction.
+Qed.
+
+(* the signaller is committed: whoever stands at the signal / wake site of waiter w is there because the hand-off to w
+   (or the remote run of w's item) has been decided, and it is the only one *)
+Lemma signaller_unique s d1 d2 c1 c2 w : reach s -> pcs s d1 = G_sig c1 w -> pcs s d2 = G_sig c2 w -> d1 = d2.
+Proof.
+  intros R H1 H2. pose proof (inv_reach s R) as [G T].
+  pose proof (t_sig _ _ _ (T d1) w) as A. cbv beta in A. rewrite H1 in A. specialize (A eq_refl).
+  pose proof (t_sig _ _ _ (T d2) w) as B. cbv beta in B. rewrite H2 in B. specialize (B eq_refl). congruence.
+Qed.
+
+(* the lock word and the ghost owner agree in every reachable state *)
+Lemma owner_word s : reach s ->
+  match holder s with
+  | Some h => Z.land (st s) OWNER_MASK = h /\ valid_tid h
+  | None => Z.land (st s) OWNER_MASK = 0
+  end.
+Proof.
+  intros R. pose proof (inv_reach s R) as [G T]. pose proof (g_word _ _ G) as Wd. destruct (holder s) as [h|] eqn:Hh.
+  - split; [apply (wordinv_owner _ _ _ Wd)|apply (g_holder _ _ G h Hh)].
+  - destruct Wd as (r & E & W & _ & L & _). cbn in L. destruct L as (L1 & _). rewrite E.
+    unfold OWNER_MASK, DLOCK_OWNER_MASK. pose proof W as W'. unfold DqFields.wfr in W'.
+    rewrite DqFields.enc_vec. rewrite (DqFields.land_vec_const _ 1073741823) by (first [apply DqFields.wfv12; lia | lia]).
+    change (Fields.decode DqFields.LAY 1073741823) with [1073741823;0;0;0;0;0;0;0;0;0;0;0]. cbn [Fields.map2].
+    rewrite !Z.land_0_r, DqFields.land_owner by lia. rewrite DqFields.vec_linear. lia.
+Qed.
+
+Lemma sites_all :
+  model_sites_event_signal = f_dispatch_thread_event_signal_sites /\
+  model_sites_event_wait = f_dispatch_thread_event_wait_sites /\
+  model_sites_event_wait_slow = f_dispatch_thread_event_wait_slow_sites /\
+  model_sites_async_and_wait_invoke = f_dispatch_async_and_wait_invoke_sites /\
+  model_sites_event_signal = f_dispatch_waiter_wake_wlh_anon_sites /\
+  model_sites_push_item = f_dispatch_queue_push_item_sites /\
+  model_sites_pop_head = f_dispatch_queue_pop_head_sites /\
+  model_sites_class_barrier_complete = f_dispatch_lane_class_barrier_complete_sites.
+Proof. repeat split. Qed.
